@@ -1,77 +1,199 @@
 /-
-  Lemmas about the connect / stream / disconnect state machine (`NxsModel/Lifecycle.lean`), used by
-  Props/C09.lean:
-    * frame lemmas for `doWrite` / `cfgCall` (which fields of the world they can touch),
-    * the reachable-world invariant `LInv` and its preservation by every `step`,
-    * what a call on a disconnected handler can do (`step_disc`), what `disconnect` does to the device,
-    * `run_append`, snoc induction over histories, and the run-level statements (`c09_*`).
-  Configuration facts come from Lemmas/Config.lean (`AckState`, `channelsWrite_ack`, …).
+  Lemmas about the connect / stream / disconnect state machines (`NxsModel/Lifecycle.lean`), used by
+  Props/C09.lean and Props/C11.lean:
+    * additions to the configuration lemmas: a device keeps 8-bit dividers under every outcome (`channelsWrite_wf`),
+    * frame lemmas for `doWrite` / `cfgCall` / `commStartReq` (which fields of the world they can touch),
+    * the general reachable-world invariant (`GInv`: any answers of the device) for the high-level handler and
+      `CInv` for a bare `CommHandler`, and their preservation by every `step` / `commStep`,
+    * the extra invariant of histories in which the device acknowledges everything (`AInv`),
+    * what a call on a disconnected handler can do (`step_off`), what `disconnect` does to the device,
+    * `run_append`, snoc induction over histories, and the run-level statements (`c09_*`, `c11_*`).
+  Configuration facts come from Lemmas/Config.lean (`Inv`, `AckState`, `DoubtEn`, `channelsWrite_ack`, …).
 -/
 import NxsModel.Lifecycle
 import NxsModel.Lemmas.Config
+
+/-! ### additions to Lemmas/Config: the device's dividers stay 8-bit whatever the outcome of a request -/
+namespace Nxs.Config
+open Nxs Nxs.Spec Nxs.Requests
+
+attribute [local irreducible] crc16xmodem
+
+theorem mem_set_range {l : List Int} {k : Nat} {x : Int} (hl : ∀ v ∈ l, 0 ≤ v ∧ v ≤ 255) (hx : 0 ≤ x ∧ x ≤ 255) :
+    ∀ v ∈ l.set k x, 0 ≤ v ∧ v ≤ 255 := by
+  intro v hv
+  rcases List.mem_or_eq_of_mem_set hv with h | h
+  · exact hl v h
+  · rw [h]; exact hx
+
+/-- the divider frame the client builds, applied by the device, leaves 8-bit dividers -/
+theorem divFrame_range {c : Client} {d : Device} (hI : Inv c d) (hn : c.n ≠ 0)
+    (hr : ∀ v ∈ d.div, 0 ≤ v ∧ v ≤ 255) :
+    ∃ f, frameDiv (divRequest c) c.n = .ok f ∧ ∀ v ∈ (devApplyDiv d f).div, 0 ≤ v ∧ v ≤ 255 := by
+  by_cases hs : (∃ k, diffIdx c.divNew c.divNow = [k]) ∧ c.divResync = false
+  · obtain ⟨⟨k, hk⟩, hres⟩ := hs
+    have hd := diffIdx_single c.divNew c.divNow k 0 (hI.lDivNew.trans hI.lDivNow.symm) hk
+    have hkn : k < c.n := hI.lDivNow ▸ hd.1
+    have hkl : k < c.divNew.length := hI.lDivNew ▸ hkn
+    have hv : 0 ≤ c.divNew.getD k 0 ∧ c.divNew.getD k 0 ≤ 255 := by
+      apply hI.rDivNew
+      rw [List.getD_eq_getElem?_getD, List.getElem?_eq_getElem hkl]
+      exact List.getElem_mem hkl
+    obtain ⟨p, hp1, hp2⟩ := C05.div_single_agrees c.n k (c.divNew.getD k 0).toNat d.div hI.lDevDiv hkn hI.n255
+      (by omega)
+    rw [Int.toNat_of_nonneg hv.1] at hp1 hp2
+    refine ⟨wire 7 p, ?_, ?_⟩
+    · rw [divRequest_single c k hk hres]; exact hp1
+    · have e : devApplyDiv d (wire 7 p) = { d with div := d.div.set k (c.divNew.getD k 0) } := by
+        unfold devApplyDiv; rw [payloadOf_wire, hI.lDevDiv, hp2]
+      rw [e]
+      exact mem_set_range hr hv
+  · have hm := map_toNat_ofNat c.divNew hI.rDivNew
+    obtain ⟨p, hp1, hp2⟩ := C05.div_forms_agree c.n (c.divNew.map Int.toNat) d.div
+      (by rw [List.length_map]; exact hI.lDivNew) (Nat.pos_of_ne_zero hn) hI.n255
+      (by
+        intro v hv
+        obtain ⟨a, ha, rfl⟩ := List.mem_map.mp hv
+        have := hI.rDivNew a ha
+        omega)
+    rw [hm] at hp1 hp2
+    refine ⟨wire 7 p, ?_, ?_⟩
+    · rw [divRequest_vec c hs]; exact hp1
+    · have e : devApplyDiv d (wire 7 p) = { d with div := c.divNew } := by
+        unfold devApplyDiv; rw [payloadOf_wire, hI.lDevDiv, hp2]
+      rw [e]
+      exact hI.rDivNew
+
+theorem writeDiv_range {c : Client} {d : Device} (hI : Inv c d) (o : Outcome)
+    (hr : ∀ v ∈ d.div, 0 ≤ v ∧ v ≤ 255) : ∀ v ∈ (writeDiv c d o).2.1.div, 0 ≤ v ∧ v ≤ 255 := by
+  by_cases hn : c.n = 0
+  · rw [writeDiv_zero hI hn o]; exact hr
+  obtain ⟨f, hf, hrange⟩ := divFrame_range hI hn hr
+  rw [writeDiv_ok c d o f hf]
+  dsimp only
+  split
+  · exact hrange
+  · exact hr
+
+/-- a well-formed device stays well formed under a write, whatever it answers -/
+theorem channelsWrite_wf {c : Client} {d : Device} (hI : Inv c d) (hd : WF d) (oDiv oEn : Outcome) :
+    WF (channelsWrite c d oDiv oEn).2.1 := by
+  have hI' := channelsWrite_inv hI oDiv oEn
+  refine ⟨hI'.lDevEn ▸ hI'.n255, hI'.lDevDiv.trans hI'.lDevEn.symm, ?_⟩
+  by_cases hn : c.n = 0
+  · rw [channelsWrite_zero c d oDiv oEn hn]; exact hd.2.2
+  cases h : c.divSupported with
+  | false =>
+    rw [channelsWrite_nodiv c d oDiv oEn hn h, (writeEnable_frame c d oEn).div]
+    exact hd.2.2
+  | true =>
+    rw [channelsWrite_div_ok c d oDiv oEn hn h (writeDiv_out hI hn oDiv).1]
+    dsimp only
+    rw [(writeEnable_frame (writeDiv c d oDiv).1 (writeDiv c d oDiv).2.1 oEn).div]
+    exact writeDiv_range hI oDiv hd.2.2
+
+/-- the device keeps its number of channels under a write -/
+theorem channelsWrite_len {c : Client} {d : Device} (hI : Inv c d) (oDiv oEn : Outcome) :
+    (channelsWrite c d oDiv oEn).2.1.en.length = d.en.length := by
+  have hI' := channelsWrite_inv hI oDiv oEn
+  rw [hI'.lDevEn, (channelsWrite_fixed' c d oDiv oEn), hI.lDevEn]
+where
+  channelsWrite_fixed' (c : Client) (d : Device) (oDiv oEn : Outcome) : (channelsWrite c d oDiv oEn).1.n = c.n := by
+    by_cases hn : c.n = 0
+    · rw [channelsWrite_zero c d oDiv oEn hn]
+    cases h : c.divSupported with
+    | false => rw [channelsWrite_nodiv c d oDiv oEn hn h]; exact (writeEnable_frame c d oEn).n
+    | true =>
+      cases he : (writeDiv c d oDiv).2.2.err with
+      | some e => rw [channelsWrite_div_err c d oDiv oEn hn h e he]; exact (writeDiv_frame c d oDiv).n
+      | none =>
+        rw [channelsWrite_div_ok c d oDiv oEn hn h he]
+        exact ((writeEnable_frame _ _ oEn).n).trans (writeDiv_frame c d oDiv).n
+
+end Nxs.Config
+
 namespace Nxs.Lifecycle
 open Nxs Nxs.Config
 
-/-! ### `doWrite` / `cfgCall`: what they touch -/
+/-! ### `doWrite` / `cfgCall` / `commStartReq`: what they touch -/
 
 /-- fields of the world a configuration call never touches -/
 structure CfgFrame (w w' : World) : Prop where
   devStarted : w'.devStarted = w.devStarted
   flags : w'.flags = w.flags
+  desc : w'.desc = w.desc
+  intfPad : w'.intfPad = w.intfPad
   commStarted : w'.commStarted = w.commStarted
   hasDev : w'.hasDev = w.hasDev
+  reported : w'.reported = w.reported
   recvThr : w'.recvThr = w.recvThr
   intf : w'.intf = w.intf
   connected : w'.connected = w.connected
   streamStarted : w'.streamStarted = w.streamStarted
   streamThr : w'.streamThr = w.streamThr
+  subs : w'.subs = w.subs
+  nextQ : w'.nextQ = w.nextQ
 
-theorem CfgFrame.refl (w : World) : CfgFrame w w := ⟨rfl, rfl, rfl, rfl, rfl, rfl, rfl, rfl, rfl⟩
+theorem CfgFrame.refl (w : World) : CfgFrame w w := ⟨rfl, rfl, rfl, rfl, rfl, rfl, rfl, rfl, rfl, rfl, rfl, rfl, rfl, rfl⟩
 
 theorem CfgFrame.trans {a b c : World} (h1 : CfgFrame a b) (h2 : CfgFrame b c) : CfgFrame a c :=
-  ⟨h2.devStarted.trans h1.devStarted, h2.flags.trans h1.flags, h2.commStarted.trans h1.commStarted,
-   h2.hasDev.trans h1.hasDev, h2.recvThr.trans h1.recvThr, h2.intf.trans h1.intf,
-   h2.connected.trans h1.connected, h2.streamStarted.trans h1.streamStarted, h2.streamThr.trans h1.streamThr⟩
+  ⟨h2.devStarted.trans h1.devStarted, h2.flags.trans h1.flags, h2.desc.trans h1.desc, h2.intfPad.trans h1.intfPad,
+   h2.commStarted.trans h1.commStarted, h2.hasDev.trans h1.hasDev, h2.reported.trans h1.reported,
+   h2.recvThr.trans h1.recvThr, h2.intf.trans h1.intf,
+   h2.connected.trans h1.connected, h2.streamStarted.trans h1.streamStarted, h2.streamThr.trans h1.streamThr,
+   h2.subs.trans h1.subs, h2.nextQ.trans h1.nextQ⟩
 
-theorem doWrite_nodev (w : World) (h : w.hasDev = false) : doWrite w = (w, .raised .assertion) := by
+theorem doWrite_nodev (w : World) (a : Ans) (h : w.hasDev = false) : doWrite w a = (w, .raised .assertion) := by
   unfold doWrite; rw [h]; rfl
 
-theorem doWrite_nocli (w : World) (h : w.hasDev = true) (hc : w.cli = none) :
-    doWrite w = (w, .raised .attributeError) := by
+theorem doWrite_nocli (w : World) (a : Ans) (h : w.hasDev = true) (hc : w.cli = none) :
+    doWrite w a = (w, .raised .attributeError) := by
   unfold doWrite; rw [h, hc]; rfl
 
-/-- on a handler with a device description a write is an acknowledged `channelsWrite` -/
-theorem doWrite_some (w : World) (c : Client) (h : w.hasDev = true) (hc : w.cli = some c) :
-    ∃ lg t, (doWrite w).1 = { w with cli := some (channelsWrite c w.dev .ack .ack).1,
-                                      dev := (channelsWrite c w.dev .ack .ack).2.1, log := lg, time := t } := by
-  unfold doWrite
-  split
-  · rename_i h'; rw [h] at h'; exact absurd h' (by decide)
-  · split
-    · rename_i h'; rw [hc] at h'; cases h'
-    · rename_i c' h'
-      rw [hc] at h'; cases h'
-      dsimp only
-      split <;> exact ⟨_, _, rfl⟩
+/-- on a handler with a device description a write is `channelsWrite` with the device's answers -/
+theorem doWrite_some (w : World) (a : Ans) (c : Client) (h : w.hasDev = true) (hc : w.cli = some c) :
+    doWrite w a =
+      ({ w with cli := some (channelsWrite c w.dev a.dv a.en).1, dev := (channelsWrite c w.dev a.dv a.en).2.1,
+                log := w.log ++ (channelsWrite c w.dev a.dv a.en).2.2.sent,
+                time := w.time + (channelsWrite c w.dev a.dv a.en).2.2.time },
+       match (channelsWrite c w.dev a.dv a.en).2.2.err with | some e => .raised e | none => .ok) := by
+  unfold doWrite; rw [h, hc]; rfl
 
-theorem doWrite_frame (w : World) : CfgFrame w (doWrite w).1 := by
+theorem doWrite_frame (w : World) (a : Ans) : CfgFrame w (doWrite w a).1 := by
   cases h : w.hasDev with
-  | false => rw [doWrite_nodev w h]; exact .refl w
+  | false => rw [doWrite_nodev w a h]; exact .refl w
   | true =>
     cases hc : w.cli with
-    | none => rw [doWrite_nocli w h hc]; exact .refl w
-    | some c =>
-      obtain ⟨lg, t, e⟩ := doWrite_some w c h hc
-      rw [e]; exact ⟨rfl, rfl, rfl, rfl, rfl, rfl, rfl, rfl, rfl⟩
+    | none => rw [doWrite_nocli w a h hc]; exact .refl w
+    | some c => rw [doWrite_some w a c h hc]; exact ⟨rfl, rfl, rfl, rfl, rfl, rfl, rfl, rfl, rfl, rfl, rfl, rfl, rfl, rfl⟩
 
-theorem cfgCall_none (w : World) (op : Op) (wn : Bool) (hc : w.cli = none) :
-    cfgCall w op wn = (w, .raised .attributeError) := by
+/-- a write returns within two ACK timeouts -/
+theorem doWrite_time (w : World) (a : Ans) : (doWrite w a).1.time ≤ w.time + 20 := by
+  cases h : w.hasDev with
+  | false => rw [doWrite_nodev w a h]; exact Nat.le_add_right _ _
+  | true =>
+    cases hc : w.cli with
+    | none => rw [doWrite_nocli w a h hc]; exact Nat.le_add_right _ _
+    | some c =>
+      rw [doWrite_some w a c h hc]
+      exact Nat.add_le_add_left (channelsWrite_time c w.dev a.dv a.en) _
+
+theorem doWrite_time_ge (w : World) (a : Ans) : w.time ≤ (doWrite w a).1.time := by
+  cases h : w.hasDev with
+  | false => rw [doWrite_nodev w a h]; exact Nat.le_refl _
+  | true =>
+    cases hc : w.cli with
+    | none => rw [doWrite_nocli w a h hc]; exact Nat.le_refl _
+    | some c => rw [doWrite_some w a c h hc]; exact Nat.le_add_right _ _
+
+theorem cfgCall_none (w : World) (op : Op) (wn : Bool) (a : Ans) (hc : w.cli = none) :
+    cfgCall w op wn a = (w, .raised .attributeError) := by
   unfold cfgCall; rw [hc]
 
 /-- a configuration call is the buffered `Config.step` followed (perhaps) by a write -/
-theorem cfgCall_some (w : World) (op : Op) (wn : Bool) (c : Client) (hc : w.cli = some c) :
-    (cfgCall w op wn).1 = { w with cli := some (Config.step c w.dev op).1 } ∨
-    (cfgCall w op wn).1 = (doWrite { w with cli := some (Config.step c w.dev op).1 }).1 := by
+theorem cfgCall_some (w : World) (op : Op) (wn : Bool) (a : Ans) (c : Client) (hc : w.cli = some c) :
+    (cfgCall w op wn a).1 = { w with cli := some (Config.step c w.dev op).1 } ∨
+    (cfgCall w op wn a).1 = (doWrite { w with cli := some (Config.step c w.dev op).1 } a).1 := by
   unfold cfgCall; rw [hc]
   dsimp only
   split
@@ -80,197 +202,294 @@ theorem cfgCall_some (w : World) (op : Op) (wn : Bool) (c : Client) (hc : w.cli 
     · exact Or.inl rfl
     · exact Or.inr rfl
 
-theorem cfgCall_frame (w : World) (op : Op) (wn : Bool) : CfgFrame w (cfgCall w op wn).1 := by
+theorem cfgCall_frame (w : World) (op : Op) (wn : Bool) (a : Ans) : CfgFrame w (cfgCall w op wn a).1 := by
   cases hc : w.cli with
-  | none => rw [cfgCall_none w op wn hc]; exact .refl w
+  | none => rw [cfgCall_none w op wn a hc]; exact .refl w
   | some c =>
-    rcases cfgCall_some w op wn c hc with e | e <;> rw [e]
-    · exact ⟨rfl, rfl, rfl, rfl, rfl, rfl, rfl, rfl, rfl⟩
+    rcases cfgCall_some w op wn a c hc with e | e <;> rw [e]
+    · exact ⟨rfl, rfl, rfl, rfl, rfl, rfl, rfl, rfl, rfl, rfl, rfl, rfl, rfl, rfl⟩
     · exact CfgFrame.trans (b := { w with cli := some (Config.step c w.dev op).1 })
-        ⟨rfl, rfl, rfl, rfl, rfl, rfl, rfl, rfl, rfl⟩ (doWrite_frame _)
+        ⟨rfl, rfl, rfl, rfl, rfl, rfl, rfl, rfl, rfl, rfl, rfl, rfl, rfl, rfl⟩ (doWrite_frame _ a)
+
+theorem cfgCall_time (w : World) (op : Op) (wn : Bool) (a : Ans) :
+    w.time ≤ (cfgCall w op wn a).1.time ∧ (cfgCall w op wn a).1.time ≤ w.time + 20 := by
+  cases hc : w.cli with
+  | none => rw [cfgCall_none w op wn a hc]; exact ⟨Nat.le_refl _, Nat.le_add_right _ _⟩
+  | some c =>
+    rcases cfgCall_some w op wn a c hc with e | e <;> rw [e]
+    · exact ⟨Nat.le_refl _, Nat.le_add_right _ _⟩
+    · exact ⟨doWrite_time_ge { w with cli := some (Config.step c w.dev op).1 } a,
+        doWrite_time { w with cli := some (Config.step c w.dev op).1 } a⟩
 
 /-- without a device description a configuration call only edits the client's buffered request -/
-theorem cfgCall_nodev (w : World) (op : Op) (wn : Bool) (h : w.hasDev = false) :
-    ∃ cl, (cfgCall w op wn).1 = { w with cli := cl } := by
+theorem cfgCall_nodev (w : World) (op : Op) (wn : Bool) (a : Ans) (h : w.hasDev = false) :
+    ∃ cl, (cfgCall w op wn a).1 = { w with cli := cl } := by
   cases hc : w.cli with
-  | none => rw [cfgCall_none w op wn hc]; exact ⟨w.cli, rfl⟩
+  | none => rw [cfgCall_none w op wn a hc]; exact ⟨w.cli, rfl⟩
   | some c =>
-    rcases cfgCall_some w op wn c hc with e | e <;> rw [e]
+    rcases cfgCall_some w op wn a c hc with e | e <;> rw [e]
     · exact ⟨_, rfl⟩
-    · rw [doWrite_nodev { w with cli := some (Config.step c w.dev op).1 } h]; exact ⟨_, rfl⟩
+    · rw [doWrite_nodev { w with cli := some (Config.step c w.dev op).1 } a h]; exact ⟨_, rfl⟩
 
-/-! ### the configuration-level part of the invariant -/
+/-- the ACK wait of a start / stop request is at most its timeout -/
+theorem startAck_time (w : World) (o : Outcome) (t : Nat) : (startAck w o t).2.2 ≤ t := by
+  unfold startAck
+  split
+  · exact Nat.zero_le _
+  · cases o with
+    | ack => exact Nat.zero_le _
+    | nack r => dsimp only; split <;> exact Nat.zero_le _
+    | appliedAckLost => exact Nat.le_refl _
+    | lost => exact Nat.le_refl _
 
-/-- client and device agree (the all-acknowledged invariant of Lemmas/Config) and the client's
-    capability flags are the device's -/
-def CState (flags : Nat) (c : Client) (d : Device) : Prop :=
-  AckState (Info.divSupported flags) d.div c d ∧ c.ackSupported = Info.ackSupported flags
+theorem commStartReq_eq (w : World) (s : Bool) (o : Outcome) :
+    (commStartReq w s o).1 =
+      { w with log := w.log ++ okFrame (Requests.frameStart s),
+               devStarted := if applies o then s else w.devStarted,
+               time := w.time + (startAck w o (if s then Gen.Comm.ackTimeoutStart else Gen.Comm.ackTimeoutStop)).2.2 } := rfl
 
-/-- the device is well formed and has `n` channels -/
-def DevOK (n : Nat) (d : Device) : Prop := WF d ∧ d.en.length = n
+
+theorem commStartReq_time (w : World) (s : Bool) (o : Outcome) :
+    w.time ≤ (commStartReq w s o).1.time ∧ (commStartReq w s o).1.time ≤ w.time + 10 := by
+  rw [commStartReq_eq]
+  refine ⟨Nat.le_add_right _ _, Nat.add_le_add_left ?_ _⟩
+  refine Nat.le_trans (startAck_time w o _) ?_
+  cases s <;> decide
+
+/-! ### the configuration-level part of the invariants -/
+
+/-- the client's configuration state is well formed for the device, carries the device's capability flags, and — on a
+    device that acknowledges — the device holds the client's view unless a request is in doubt -/
+def CliInv (flags : Nat) (w : World) : Prop :=
+  ∃ c, w.cli = some c ∧ Inv c w.dev ∧ c.divSupported = Info.divSupported flags ∧
+    c.ackSupported = Info.ackSupported flags ∧
+    (Info.ackSupported flags = true → DoubtEn c w.dev ∧ DoubtDiv c w.dev)
+
+/-- what never changes: the device is well formed, keeps its channel count, flags and static description -/
+structure Base (n flags : Nat) (desc : Desc) (w : World) : Prop where
+  wf : WF w.dev
+  len : w.dev.en.length = n
+  fl : w.flags = flags
+  ds : w.desc = desc
+
+/-- the static description of an `n`-channel device with these flags -/
+def rep (n flags : Nat) (desc : Desc) : Reported := ⟨n, flags, desc.rxpadding, desc.chans⟩
+
+theorem Base.describe {n flags : Nat} {desc : Desc} {w : World} (h : Base n flags desc w) :
+    describe w = rep n flags desc := by
+  unfold Lifecycle.describe rep; rw [h.len, h.fl, h.ds]
 
 theorem ackOp_of_nonwrite (op : Op) (h : ∀ a b, op ≠ .write a b) : AckOp op := by
   cases op <;> first | trivial | exact absurd rfl (h _ _)
 
-theorem ackState_reanchor {ds : Bool} {dv0 : List Int} {c : Client} {d : Device} (h : AckState ds dv0 c d) :
-    AckState ds d.div c d :=
-  ⟨h.inv, h.dEn, h.dDiv, h.sEn, h.sDiv, h.divS, fun _ => rfl⟩
+theorem CliInv.init {flags : Nat} {w : World} (hd : WF w.dev) (hc : w.cli = some (Client.init w.dev flags)) :
+    CliInv flags w :=
+  ⟨_, hc, init_inv w.dev flags hd, rfl, rfl, fun _ => ⟨fun _ => rfl, fun _ => rfl⟩⟩
 
-theorem CState.init (d : Device) (flags : Nat) (hd : WF d) : CState flags (Client.init d flags) d :=
-  ⟨init_ackState d flags hd, rfl⟩
+theorem CliInv.congr {flags : Nat} {w w' : World} (h : CliInv flags w) (hc : w'.cli = w.cli) (hd : w'.dev = w.dev) :
+    CliInv flags w' := by
+  obtain ⟨c, h1, h2, h3, h4, h5⟩ := h
+  exact ⟨c, hc.trans h1, hd ▸ h2, h3, h4, hd ▸ h5⟩
 
-theorem CState.setter {flags : Nat} {c : Client} {d : Device} (h : CState flags c d) (op : Op)
-    (hop : ∀ a b, op ≠ .write a b) : CState flags (Config.step c d op).1 d := by
-  have h1 := h.1.step op (ackOp_of_nonwrite op hop)
-  rw [(step_silent c d op hop).1] at h1
-  exact ⟨ackState_reanchor h1, (step_fixed c d op).2.1.trans h.2⟩
+/-- a buffered setter keeps the configuration invariant -/
+theorem CliInv.setter {flags : Nat} {w : World} {c : Client} (h : CliInv flags w) (hc : w.cli = some c) (op : Op)
+    (hop : ∀ a b, op ≠ .write a b) : CliInv flags { w with cli := some (Config.step c w.dev op).1 } := by
+  obtain ⟨c0, hc0, hI, hdv, hak, hD⟩ := h
+  obtain rfl : c0 = c := Option.some.inj (hc0.symm.trans hc)
+  have hsil := (step_silent c0 w.dev op hop).1
+  have hI' := step_inv hI op
+  rw [hsil] at hI'
+  have hf := step_fixed c0 w.dev op
+  refine ⟨_, rfl, hI', hf.1.trans hdv, hf.2.1.trans hak, fun hA => ?_⟩
+  have hd' := step_doubt hI (hD hA).1 (hD hA).2 op (Or.inr (ackOp_of_nonwrite op hop))
+  rw [hsil] at hd'
+  exact hd'
 
-/-- an acknowledged write keeps client and device in agreement, keeps the device well formed with the
-    same number of channels, and leaves the device with exactly the requested enable vector -/
-theorem CState.write {flags : Nat} {c : Client} {d : Device} (h : CState flags c d) (hd : WF d) :
-    CState flags (channelsWrite c d .ack .ack).1 (channelsWrite c d .ack .ack).2.1 ∧
-    WF (channelsWrite c d .ack .ack).2.1 ∧
-    (channelsWrite c d .ack .ack).2.1.en.length = d.en.length ∧
-    (channelsWrite c d .ack .ack).2.1.en = c.enNew := by
-  have h1 : AckState _ _ (Config.step c d (.write .ack .ack)).1 (Config.step c d (.write .ack .ack)).2.1 :=
-    h.1.step (.write .ack .ack) ⟨rfl, rfl⟩
-  have h2 : CState flags (channelsWrite c d .ack .ack).1 (channelsWrite c d .ack .ack).2.1 :=
-    ⟨ackState_reanchor h1, (channelsWrite_fixed c d .ack .ack).2.1.trans h.2⟩
-  have hI := h.1.inv
-  by_cases hn : c.n = 0
-  · -- a device without channels: the write does nothing, and requested = device = []
-    refine ⟨h2, ?_, ?_, ?_⟩ <;> rw [channelsWrite_zero c d .ack .ack hn]
-    · exact hd
-    · exact (hI.nil hn).2.2.2.2.1.trans (hI.nil hn).2.1.symm
-  obtain ⟨-, e2⟩ := channelsWrite_ack hI hn h.1.dEn h.1.dDiv
-  refine ⟨h2, ?_, ?_, ?_⟩
-  · rw [e2]
-    cases c.divSupported
-    · exact ⟨hI.lEnNew ▸ hI.n255, hI.lDevDiv.trans hI.lEnNew.symm, hd.2.2⟩
-    · exact ⟨hI.lEnNew ▸ hI.n255, hI.lDivNew.trans hI.lEnNew.symm, hI.rDivNew⟩
-  · rw [e2]
-    cases c.divSupported <;> exact hI.lEnNew.trans hI.lDevEn.symm
-  · rw [e2]
-    cases c.divSupported <;> rfl
+/-- a write, whatever the device answers, keeps the configuration invariant -/
+theorem CliInv.write {flags : Nat} {w : World} {c : Client} (h : CliInv flags w) (hc : w.cli = some c) (a : Ans)
+    (lg : List Bytes) (t : Nat) :
+    CliInv flags { w with cli := some (channelsWrite c w.dev a.dv a.en).1,
+                          dev := (channelsWrite c w.dev a.dv a.en).2.1, log := lg, time := t } := by
+  obtain ⟨c0, hc0, hI, hdv, hak, hD⟩ := h
+  obtain rfl : c0 = c := Option.some.inj (hc0.symm.trans hc)
+  have hf := channelsWrite_fixed c0 w.dev a.dv a.en
+  exact ⟨_, rfl, channelsWrite_inv hI a.dv a.en, hf.1.trans hdv, hf.2.1.trans hak,
+    fun hA => channelsWrite_doubt hI (hD hA).1 (hD hA).2 a.dv a.en (Or.inl (hak.trans hA))⟩
 
-/-- the world's client (if the handler is connected) agrees with the world's device -/
-def Synced (flags : Nat) (w : World) : Prop := ∃ c, w.cli = some c ∧ CState flags c w.dev
+/-! ### the low-level handler's two states -/
 
-theorem doWrite_synced {n flags : Nat} {w : World} (hh : w.hasDev = true) (hd : DevOK n w.dev)
-    (hs : Synced flags w) : DevOK n (doWrite w).1.dev ∧ Synced flags (doWrite w).1 := by
-  obtain ⟨c, hc, hS⟩ := hs
-  obtain ⟨lg, t, e⟩ := doWrite_some w c hh hc
-  obtain ⟨h1, h2, h3, -⟩ := hS.write hd.1
-  rw [e]
-  exact ⟨⟨h2, h3.trans hd.2⟩, _, rfl, h1⟩
+/-- the low-level handler is stopped: no receive thread, interface stopped, no description -/
+def COff (w : World) : Prop :=
+  w.recvThr = false ∧ w.intf = false ∧ w.hasDev = false ∧ w.commStarted = false ∧ w.reported = none
 
-/-- on a handler whose client agrees with the device a write does not raise -/
-theorem doWrite_ok {flags : Nat} {w : World} (hh : w.hasDev = true) (hs : Synced flags w) :
-    (doWrite w).2 = .ok := by
-  obtain ⟨c, hc, hS⟩ := hs
-  have he := channelsWrite_noerr hS.1.inv .ack .ack
-  unfold doWrite
-  rw [hh, hc]
+/-- the low-level handler is started: receive thread and interface running, the device's description reported,
+    configuration state well formed -/
+def COn (flags : Nat) (r : Reported) (w : World) : Prop :=
+  w.recvThr = true ∧ w.intf = true ∧ w.hasDev = true ∧ w.commStarted = true ∧ w.reported = some r ∧ CliInv flags w
+
+theorem COn.of_frame {flags : Nat} {r : Reported} {w w' : World} (h : COn flags r w) (hF : CfgFrame w w')
+    (hc : CliInv flags w') : COn flags r w' :=
+  ⟨hF.recvThr.trans h.1, hF.intf.trans h.2.1, hF.hasDev.trans h.2.2.1, hF.commStarted.trans h.2.2.2.1,
+   hF.reported.trans h.2.2.2.2.1, hc⟩
+
+theorem COff.of_frame {w w' : World} (h : COff w) (hF : CfgFrame w w') : COff w' :=
+  ⟨hF.recvThr.trans h.1, hF.intf.trans h.2.1, hF.hasDev.trans h.2.2.1, hF.commStarted.trans h.2.2.2.1,
+   hF.reported.trans h.2.2.2.2⟩
+
+/-- a write on a started handler: invariants kept, and it does not raise -/
+theorem doWrite_con {n flags : Nat} {desc : Desc} {r : Reported} {w : World} (hb : Base n flags desc w)
+    (hon : COn flags r w) (a : Ans) :
+    Base n flags desc (doWrite w a).1 ∧ COn flags r (doWrite w a).1 ∧ (doWrite w a).2 = .ok := by
+  obtain ⟨c, hc, hI, -⟩ := hon.2.2.2.2.2
+  have hF := doWrite_frame w a
+  have hcl := CliInv.write hon.2.2.2.2.2 hc a (w.log ++ (channelsWrite c w.dev a.dv a.en).2.2.sent)
+    (w.time + (channelsWrite c w.dev a.dv a.en).2.2.time)
+  have hne := channelsWrite_noerr hI a.dv a.en
+  rw [doWrite_some w a c hon.2.2.1 hc] at hF ⊢
+  refine ⟨⟨channelsWrite_wf hI hb.wf a.dv a.en, (channelsWrite_len hI a.dv a.en).trans hb.len, hb.fl, hb.ds⟩,
+    hon.of_frame hF hcl, ?_⟩
   dsimp only
-  rw [he]
-  rfl
+  rw [hne]
 
-/-- … nor does a buffered "all" call followed by a write (`ch_disable_all(True)`, `channels_default_cfg`):
-    these setters cannot fail, and the write is built from well-formed vectors -/
-theorem cfgCall_disableAll_ok {flags : Nat} {w : World} (hh : w.hasDev = true) (hs : Synced flags w) :
-    (cfgCall w .disableAll true).2 = .ok := by
-  obtain ⟨c, hc, hS⟩ := hs
-  have e : cfgCall w .disableAll true = doWrite { w with cli := some (Config.step c w.dev .disableAll).1 } := by
+/-- a buffered setter, perhaps followed by a write, on a started handler -/
+theorem cfgCall_con {n flags : Nat} {desc : Desc} {r : Reported} {w : World} (hb : Base n flags desc w)
+    (hon : COn flags r w) (op : Op) (wn : Bool) (a : Ans) (hop : ∀ x y, op ≠ .write x y) :
+    Base n flags desc (cfgCall w op wn a).1 ∧ COn flags r (cfgCall w op wn a).1 := by
+  obtain ⟨c, hc, -⟩ := hon.2.2.2.2.2
+  have hset := CliInv.setter hon.2.2.2.2.2 hc op hop
+  have hon' : COn flags r { w with cli := some (Config.step c w.dev op).1 } :=
+    ⟨hon.1, hon.2.1, hon.2.2.1, hon.2.2.2.1, hon.2.2.2.2.1, hset⟩
+  have hb' : Base n flags desc { w with cli := some (Config.step c w.dev op).1 } := ⟨hb.wf, hb.len, hb.fl, hb.ds⟩
+  rcases cfgCall_some w op wn a c hc with e | e <;> rw [e]
+  · exact ⟨hb', hon'⟩
+  · exact ⟨(doWrite_con hb' hon' a).1, (doWrite_con hb' hon' a).2.1⟩
+
+/-- `ch_disable_all(True)` on a started handler does not raise: the setter cannot fail, the write is built from
+    well-formed vectors -/
+theorem cfgCall_disableAll_ok {n flags : Nat} {desc : Desc} {r : Reported} {w : World} (hb : Base n flags desc w)
+    (hon : COn flags r w) (a : Ans) : (cfgCall w .disableAll true a).2 = .ok := by
+  obtain ⟨c, hc, -⟩ := hon.2.2.2.2.2
+  have hset := CliInv.setter hon.2.2.2.2.2 hc .disableAll (fun _ _ e => nomatch e)
+  have hon' : COn flags r { w with cli := some (Config.step c w.dev .disableAll).1 } :=
+    ⟨hon.1, hon.2.1, hon.2.2.1, hon.2.2.2.1, hon.2.2.2.2.1, hset⟩
+  have hb' : Base n flags desc { w with cli := some (Config.step c w.dev .disableAll).1 } :=
+    ⟨hb.wf, hb.len, hb.fl, hb.ds⟩
+  have e : cfgCall w .disableAll true a = doWrite { w with cli := some (Config.step c w.dev .disableAll).1 } a := by
     unfold cfgCall; rw [hc]; rfl
   rw [e]
-  exact doWrite_ok (flags := flags) (w := { w with cli := some (Config.step c w.dev .disableAll).1 }) hh
-    ⟨_, rfl, hS.setter .disableAll (fun a b e => nomatch e)⟩
+  exact (doWrite_con hb' hon' a).2.2
 
-theorem cfgCall_synced {n flags : Nat} {w : World} (op : Op) (wn : Bool) (hop : ∀ a b, op ≠ .write a b)
-    (hh : w.hasDev = true) (hd : DevOK n w.dev) (hs : Synced flags w) :
-    DevOK n (cfgCall w op wn).1.dev ∧ Synced flags (cfgCall w op wn).1 := by
-  obtain ⟨c, hc, hS⟩ := hs
-  have hS' := hS.setter op hop
-  rcases cfgCall_some w op wn c hc with e | e <;> rw [e]
-  · exact ⟨hd, _, rfl, hS'⟩
-  · exact doWrite_synced (w := { w with cli := some (Config.step c w.dev op).1 }) hh hd ⟨_, rfl, hS'⟩
+/-! ### single calls of the high-level handler -/
 
-/-! ### single calls -/
-
-theorem step_sub (w : World) (c : Nat) : step w (.sub c) =
-    if c < w.subs.length then
-      ({ w with subs := w.subs.set c (w.subs.getD c [] ++ [w.nextQ]), nextQ := w.nextQ + 1 }, .ok)
+theorem step_sub (w : World) (c : Int) (a : Ans) : step w (.sub c) a =
+    if pyIdx w.subs.length c < w.subs.length then
+      ({ w with subs := w.subs.set (pyIdx w.subs.length c) (w.subs.getD (pyIdx w.subs.length c) [] ++ [w.nextQ]),
+                nextQ := w.nextQ + 1 }, .ok)
     else (w, .raised .indexError) := rfl
 
-theorem step_chDivider (w : World) (cs : List Nat) (v : Int) (wn : Bool) : step w (.chDivider cs v wn) =
+theorem step_chDivider (w : World) (cs : List Int) (v : Int) (wn : Bool) (a : Ans) : step w (.chDivider cs v wn) a =
     if v < 0 ∨ v > 255 then (w, .raised .valueError)
     else if !w.hasDev then (w, .raised .assertion)
-    else cfgCall w (.divider cs v) wn := rfl
+    else cfgCall w (.divider (idxs w cs) v) wn a := rfl
 
-theorem step_chDisableAll (w : World) (wn : Bool) : step w (.chDisableAll wn) =
-    if !w.hasDev then (w, .raised .assertion) else cfgCall w .disableAll wn := rfl
+theorem step_chDisableAll (w : World) (wn : Bool) (a : Ans) : step w (.chDisableAll wn) a =
+    if !w.hasDev then (w, .raised .assertion) else cfgCall w .disableAll wn a := rfl
 
-theorem step_defaultCfg (w : World) (wn : Bool) : step w (.defaultCfg wn) =
-    if !w.hasDev then (w, .raised .assertion) else cfgCall w .defaultCfg wn := rfl
+theorem step_defaultCfg (w : World) (wn : Bool) (a : Ans) : step w (.defaultCfg wn) a =
+    if !w.hasDev then (w, .raised .assertion) else cfgCall w .defaultCfg wn a := rfl
 
-theorem step_devChannelGet (w : World) (c : Nat) : step w (.devChannelGet c) =
+theorem step_devChannelGet (w : World) (c : Int) (a : Ans) : step w (.devChannelGet c) a =
     if !w.hasDev then (w, .raised .assertion) else (w, .ok) := rfl
 
-theorem step_streamStart (w : World) : step w .streamStart =
+theorem step_streamStart (w : World) (a : Ans) : step w .streamStart a =
     if w.streamStarted then (w, .ok)
     else
-      match doWrite w with
-      | (w1, .raised e) => (w1, .raised e)
-      | (w1, .ok) =>
-        ({ w1 with log := w1.log ++ okFrame (Requests.frameStart true), devStarted := true, streamThr := true,
-                   streamStarted := true }, .ok) := rfl
+      match doWrite w a with
+      | (w1, .ok) => ({ (commStartReq w1 true a.st).1 with streamThr := true, streamStarted := true }, .ok)
+      | (w1, r) => (w1, r) := rfl
 
-theorem step_connect (w : World) : step w .connect =
+theorem step_connect (w : World) (a : Ans) : step w .connect a =
     if w.connected then (w, .ok)
     else ({ commConnect w with subs := List.replicate (commConnect w).dev.en.length [], connected := true }, .ok) := rfl
 
-theorem step_disconnect (w : World) : step w .disconnect =
+theorem step_disconnect (w : World) (a : Ans) : step w .disconnect a =
     if w.connected then
-      match (if (streamStop w).hasDev then cfgCall (streamStop w) .disableAll true
-             else (streamStop w, .raised .assertion)) with
-      | (w2, .raised e) => (w2, .raised e)
+      match (if (streamStop w a).hasDev then cfgCall (streamStop w a) .disableAll true a
+             else (streamStop w a, .raised .assertion)) with
       | (w2, .ok) => ({ commDisconnect w2 with connected := false }, .ok)
+      | (w2, r) => (w2, r)
     else (w, .ok) := rfl
 
-theorem step_connect_idem (w : World) (h : w.connected = true) : step w .connect = (w, .ok) := by
+theorem step_connect_idem (w : World) (a : Ans) (h : w.connected = true) : step w .connect a = (w, .ok) := by
   rw [step_connect, h]; rfl
 
-theorem step_disconnect_idem (w : World) (h : w.connected = false) : step w .disconnect = (w, .ok) := by
+theorem step_disconnect_idem (w : World) (a : Ans) (h : w.connected = false) : step w .disconnect a = (w, .ok) := by
   rw [step_disconnect, h]; rfl
 
-theorem streamStop_idle (w : World) (h : w.streamStarted = false) : streamStop w = w := by
+theorem streamStop_idle (w : World) (a : Ans) (h : w.streamStarted = false) : streamStop w a = w := by
   unfold streamStop; rw [h]; rfl
+
+theorem streamStop_active (w : World) (a : Ans) (h : w.streamStarted = true) :
+    streamStop w a = { (commStartReq w false a.st).1 with streamThr := false, streamStarted := false } := by
+  unfold streamStop; rw [h]; rfl
+
+theorem commConnect_started (w : World) (h : w.commStarted = true) : commConnect w = w := by
+  unfold commConnect; rw [h]; rfl
+
+theorem commConnect_stopped (w : World) (h : w.commStarted = false) : commConnect w =
+    { w with intf := true, devStarted := false, recvThr := true,
+             log := w.log ++ okFrame (Requests.frameStart false) ++ okFrame Requests.frameCmninfo ++ padWrite w ++
+                      chinfoFrames 0 w.dev.en.length,
+             time := w.time + drain + drain,
+             intfPad := if w.desc.rxpadding > 0 then w.desc.rxpadding else w.intfPad,
+             hasDev := true, reported := some (describe w),
+             cli := some (Client.init w.dev w.flags), commStarted := true } := by
+  unfold commConnect; rw [h]; rfl
+
+theorem commDisconnect_started (w : World) (h : w.commStarted = true) : commDisconnect w =
+    { w with recvThr := false, intf := false, time := w.time + drain, commStarted := false, hasDev := false,
+             reported := none } := by
+  unfold commDisconnect; rw [h]; rfl
+
+theorem commDisconnect_stopped (w : World) (h : w.commStarted = false) : commDisconnect w = w := by
+  unfold commDisconnect; rw [h]; rfl
+
+/-! ### the high-level handler's two states, any answers of the device -/
 
 /-- the handler is switched off: disconnected, no thread, no interface, no description, no stream -/
 def Off (w : World) : Prop :=
-  w.connected = false ∧ w.recvThr = false ∧ w.streamThr = false ∧ w.intf = false ∧ w.hasDev = false ∧
-  w.commStarted = false ∧ w.streamStarted = false
+  w.connected = false ∧ w.streamThr = false ∧ w.streamStarted = false ∧ COff w
+
+/-- the handler is switched on: connected, low-level handler started, the stream thread runs exactly while the
+    stream is started -/
+def GOn (flags : Nat) (r : Reported) (w : World) : Prop :=
+  w.connected = true ∧ w.streamThr = w.streamStarted ∧ COn flags r w
+
+/-- invariant of every world reachable from a fresh handler in front of a well-formed `n`-channel device -/
+structure GInv (n flags : Nat) (desc : Desc) (w : World) : Prop where
+  base : Base n flags desc w
+  mode : Off w ∨ GOn flags (rep n flags desc) w
 
 /-- a call on a switched-off handler (other than connect) can only edit the buffered client request
     and the subscription bookkeeping -/
-theorem step_off_shape (w : World) (c : Call) (hc : c ≠ .connect) (h : Off w) :
-    ∃ cl sb nq, (step w c).1 = { w with cli := cl, subs := sb, nextQ := nq } := by
-  obtain ⟨h1, -, -, -, h5, -, h7⟩ := h
-  have cfg : ∀ op wn, ∃ cl sb nq, (cfgCall w op wn).1 = { w with cli := cl, subs := sb, nextQ := nq } := by
+theorem step_off_shape (w : World) (c : Call) (a : Ans) (hc : c ≠ .connect) (h : Off w) :
+    ∃ cl sb nq, (step w c a).1 = { w with cli := cl, subs := sb, nextQ := nq } := by
+  obtain ⟨h1, -, h7, -, -, h5, -, -⟩ := h
+  have cfg : ∀ op wn, ∃ cl sb nq, (cfgCall w op wn a).1 = { w with cli := cl, subs := sb, nextQ := nq } := by
     intro op wn
-    obtain ⟨cl, e⟩ := cfgCall_nodev w op wn h5
+    obtain ⟨cl, e⟩ := cfgCall_nodev w op wn a h5
     exact ⟨cl, w.subs, w.nextQ, e⟩
   have same : ∃ cl sb nq, w = { w with cli := cl, subs := sb, nextQ := nq } := ⟨w.cli, w.subs, w.nextQ, rfl⟩
   cases c with
   | connect => exact absurd rfl hc
-  | disconnect => rw [step_disconnect_idem w h1]; exact same
+  | disconnect => rw [step_disconnect_idem w a h1]; exact same
   | streamStart =>
-    have e : step w .streamStart = (w, .raised .assertion) := by
-      rw [step_streamStart, h7, doWrite_nodev w h5]; rfl
+    have e : step w .streamStart a = (w, .raised .assertion) := by
+      rw [step_streamStart, h7, doWrite_nodev w a h5]; rfl
     rw [e]; exact same
   | streamStop =>
-    have e : step w .streamStop = (streamStop w, .ok) := rfl
-    rw [e, streamStop_idle w h7]
+    have e : step w .streamStop a = (streamStop w a, .ok) := rfl
+    rw [e, streamStop_idle w a h7]
     exact same
   | sub c =>
     rw [step_sub]
@@ -281,7 +500,7 @@ theorem step_off_shape (w : World) (c : Call) (hc : c ≠ .connect) (h : Off w) 
   | chEnable cs wn => exact cfg _ _
   | chDisable cs wn => exact cfg _ _
   | chDisableAll wn =>
-    have e : step w (.chDisableAll wn) = (w, .raised .assertion) := by
+    have e : step w (.chDisableAll wn) a = (w, .raised .assertion) := by
       rw [step_chDisableAll, h5]; rfl
     rw [e]; exact same
   | chDivider cs v wn =>
@@ -292,222 +511,297 @@ theorem step_off_shape (w : World) (c : Call) (hc : c ≠ .connect) (h : Off w) 
       · exact same
       · exact cfg _ _
   | defaultCfg wn =>
-    have e : step w (.defaultCfg wn) = (w, .raised .assertion) := by
+    have e : step w (.defaultCfg wn) a = (w, .raised .assertion) := by
       rw [step_defaultCfg, h5]; rfl
     rw [e]; exact same
   | channelsWrite =>
-    have e : step w .channelsWrite = (w, .raised .assertion) := doWrite_nodev w h5
+    have e : step w .channelsWrite a = (w, .raised .assertion) := doWrite_nodev w a h5
     rw [e]; exact same
   | devChannelGet c =>
-    have e : step w (.devChannelGet c) = (w, .raised .assertion) := by
+    have e : step w (.devChannelGet c) a = (w, .raised .assertion) := by
       rw [step_devChannelGet, h5]; rfl
     rw [e]; exact same
 
 /-- calls on a switched-off handler never reach the device, never start anything, take no time -/
-theorem step_off (w : World) (c : Call) (hc : c ≠ .connect) (h : Off w) :
-    Off (step w c).1 ∧ (step w c).1.log = w.log ∧ (step w c).1.dev = w.dev ∧
-    (step w c).1.devStarted = w.devStarted ∧ (step w c).1.time = w.time ∧ (step w c).1.flags = w.flags := by
-  obtain ⟨cl, sb, nq, e⟩ := step_off_shape w c hc h
+theorem step_off (w : World) (c : Call) (a : Ans) (hc : c ≠ .connect) (h : Off w) :
+    Off (step w c a).1 ∧ (step w c a).1.log = w.log ∧ (step w c a).1.dev = w.dev ∧
+    (step w c a).1.devStarted = w.devStarted ∧ (step w c a).1.time = w.time ∧ (step w c a).1.flags = w.flags ∧
+    (step w c a).1.desc = w.desc ∧ (step w c a).1.intfPad = w.intfPad := by
+  obtain ⟨cl, sb, nq, e⟩ := step_off_shape w c a hc h
   rw [e]
-  exact ⟨h, rfl, rfl, rfl, rfl, rfl⟩
+  exact ⟨h, rfl, rfl, rfl, rfl, rfl, rfl, rfl⟩
 
-/-! ### the reachable-world invariant -/
+theorem fresh_ginv (d0 : Device) (started : Bool) (flags : Nat) (desc : Desc) (hd : WF d0) :
+    GInv d0.en.length flags desc (World.fresh d0 started flags desc) :=
+  ⟨⟨hd, rfl, rfl, rfl⟩, Or.inl ⟨rfl, rfl, rfl, rfl, rfl, rfl, rfl, rfl⟩⟩
 
-/-- the handler is switched on: connected, receive thread and interface running, description present,
-    stream thread and device stream exactly as `streamStarted` says, client and device in agreement -/
-def On (flags : Nat) (w : World) : Prop :=
-  w.connected = true ∧ w.recvThr = true ∧ w.intf = true ∧ w.hasDev = true ∧ w.commStarted = true ∧
-  w.streamThr = w.streamStarted ∧ w.devStarted = w.streamStarted ∧ Synced flags w
+theorem g_write {n flags : Nat} {desc : Desc} {w : World} (h : GInv n flags desc w)
+    (hon : GOn flags (rep n flags desc) w) (a : Ans) :
+    GInv n flags desc (doWrite w a).1 ∧ GOn flags (rep n flags desc) (doWrite w a).1 ∧ (doWrite w a).2 = .ok := by
+  have hF := doWrite_frame w a
+  obtain ⟨hb, hc, hr⟩ := doWrite_con h.base hon.2.2 a
+  have h2 : GOn flags (rep n flags desc) (doWrite w a).1 :=
+    ⟨hF.connected.trans hon.1, by rw [hF.streamThr, hF.streamStarted]; exact hon.2.1, hc⟩
+  exact ⟨⟨hb, Or.inr h2⟩, h2, hr⟩
 
-/-- invariant of every world reachable from a fresh handler in front of a well-formed `n`-channel device -/
-structure LInv (n flags : Nat) (w : World) : Prop where
-  dev : DevOK n w.dev
-  fl : w.flags = flags
-  mode : Off w ∨ On flags w
+theorem g_cfg {n flags : Nat} {desc : Desc} {w : World} (h : GInv n flags desc w)
+    (hon : GOn flags (rep n flags desc) w) (op : Op) (wn : Bool) (a : Ans) (hop : ∀ x y, op ≠ .write x y) :
+    GInv n flags desc (cfgCall w op wn a).1 ∧ GOn flags (rep n flags desc) (cfgCall w op wn a).1 := by
+  have hF := cfgCall_frame w op wn a
+  obtain ⟨hb, hc⟩ := cfgCall_con h.base hon.2.2 op wn a hop
+  have h2 : GOn flags (rep n flags desc) (cfgCall w op wn a).1 :=
+    ⟨hF.connected.trans hon.1, by rw [hF.streamThr, hF.streamStarted]; exact hon.2.1, hc⟩
+  exact ⟨⟨hb, Or.inr h2⟩, h2⟩
 
-theorem fresh_linv (d0 : Device) (started : Bool) (flags : Nat) (hd : WF d0) :
-    LInv d0.en.length flags (World.fresh d0 started flags) :=
-  ⟨⟨hd, rfl⟩, rfl, Or.inl ⟨rfl, rfl, rfl, rfl, rfl, rfl, rfl⟩⟩
-
-theorem On.of_frame {flags : Nat} {w w' : World} (hon : On flags w) (hF : CfgFrame w w')
-    (hs : Synced flags w') : On flags w' := by
-  obtain ⟨h1, h2, h3, h4, h5, h6, h7, -⟩ := hon
-  refine ⟨hF.connected.trans h1, hF.recvThr.trans h2, hF.intf.trans h3, hF.hasDev.trans h4,
-    hF.commStarted.trans h5, ?_, ?_, hs⟩
-  · rw [hF.streamThr, hF.streamStarted]; exact h6
-  · rw [hF.devStarted, hF.streamStarted]; exact h7
-
-theorem on_write {n flags : Nat} {w : World} (h : LInv n flags w) (hon : On flags w) :
-    LInv n flags (doWrite w).1 ∧ On flags (doWrite w).1 := by
-  have hF := doWrite_frame w
-  obtain ⟨hd, hs⟩ := doWrite_synced hon.2.2.2.1 h.dev hon.2.2.2.2.2.2.2
-  have h2 := hon.of_frame hF hs
-  exact ⟨⟨hd, hF.flags.trans h.fl, Or.inr h2⟩, h2⟩
-
-theorem on_cfg {n flags : Nat} {w : World} (h : LInv n flags w) (hon : On flags w) (op : Op) (wn : Bool)
-    (hop : ∀ a b, op ≠ .write a b) :
-    LInv n flags (cfgCall w op wn).1 ∧ On flags (cfgCall w op wn).1 := by
-  have hF := cfgCall_frame w op wn
-  obtain ⟨hd, hs⟩ := cfgCall_synced op wn hop hon.2.2.2.1 h.dev hon.2.2.2.2.2.2.2
-  have h2 := hon.of_frame hF hs
-  exact ⟨⟨hd, hF.flags.trans h.fl, Or.inr h2⟩, h2⟩
-
-theorem on_streamStop {n flags : Nat} {w : World} (h : LInv n flags w) (hon : On flags w) :
-    LInv n flags (streamStop w) ∧ On flags (streamStop w) ∧ (streamStop w).streamStarted = false ∧
-    (streamStop w).devStarted = false := by
+theorem g_streamStop {n flags : Nat} {desc : Desc} {w : World} (h : GInv n flags desc w)
+    (hon : GOn flags (rep n flags desc) w) (a : Ans) :
+    GInv n flags desc (streamStop w a) ∧ GOn flags (rep n flags desc) (streamStop w a) ∧
+    (streamStop w a).streamStarted = false := by
   cases hs : w.streamStarted with
   | false =>
-    rw [streamStop_idle w hs]
-    exact ⟨h, hon, hs, hon.2.2.2.2.2.2.1.trans hs⟩
+    rw [streamStop_idle w a hs]
+    exact ⟨h, hon, hs⟩
   | true =>
-    have e : streamStop w =
-        { w with log := w.log ++ okFrame (Requests.frameStart false), devStarted := false,
-                 streamThr := false, streamStarted := false } := by
-      unfold streamStop; rw [hs]; rfl
-    rw [e]
-    obtain ⟨h1, h2, h3, h4, h5, -, -, h8⟩ := hon
-    have hon' : On flags
-        { w with log := w.log ++ okFrame (Requests.frameStart false), devStarted := false,
-                 streamThr := false, streamStarted := false } := ⟨h1, h2, h3, h4, h5, rfl, rfl, h8⟩
-    exact ⟨⟨h.dev, h.fl, Or.inr hon'⟩, hon', rfl, rfl⟩
+    rw [streamStop_active w a hs, commStartReq_eq]
+    obtain ⟨h1, -, h2, h3, h4, h5, h6, h7⟩ := hon
+    have hon' : GOn flags (rep n flags desc)
+        { w with log := w.log ++ okFrame (Requests.frameStart false),
+                 devStarted := if applies a.st then false else w.devStarted,
+                 time := w.time + (startAck w a.st (if false = true then Gen.Comm.ackTimeoutStart else Gen.Comm.ackTimeoutStop)).2.2,
+                 streamThr := false, streamStarted := false } :=
+      ⟨h1, rfl, h2, h3, h4, h5, h6, h7.congr rfl rfl⟩
+    exact ⟨⟨⟨h.base.wf, h.base.len, h.base.fl, h.base.ds⟩, Or.inr hon'⟩, hon', rfl⟩
 
-/-- `ch_disable_all(True)` on a switched-on handler leaves every device channel disabled -/
-theorem cfgCall_disableAll_dev {flags : Nat} {w : World} (hh : w.hasDev = true) (hd : WF w.dev)
-    (hs : Synced flags w) : ∀ b ∈ (cfgCall w .disableAll true).1.dev.en, b = false := by
-  obtain ⟨c, hc, hS⟩ := hs
-  have e : cfgCall w .disableAll true = doWrite { w with cli := some (Config.step c w.dev .disableAll).1 } := by
-    unfold cfgCall; rw [hc]; rfl
-  obtain ⟨lg, t, e2⟩ := doWrite_some { w with cli := some (Config.step c w.dev .disableAll).1 } _ hh rfl
-  have hS' := hS.setter .disableAll (fun a b e => nomatch e)
-  obtain ⟨-, -, -, h4⟩ := hS'.write hd
-  rw [e, e2]
-  intro b hb
-  have hb' : b ∈ (channelsWrite (Config.step c w.dev .disableAll).1 w.dev .ack .ack).2.1.en := hb
-  rw [h4] at hb'
-  exact (List.mem_replicate.mp hb').2
-
-theorem on_disconnect {n flags : Nat} {w : World} (h : LInv n flags w) (hon : On flags w) :
-    LInv n flags (step w .disconnect).1 ∧ Off (step w .disconnect).1 ∧
-    (step w .disconnect).1.devStarted = false ∧ ∀ b ∈ (step w .disconnect).1.dev.en, b = false := by
-  obtain ⟨h1, o1, s1, d1⟩ := on_streamStop h hon
-  have hh := o1.2.2.2.1
-  obtain ⟨h2, o2⟩ := on_cfg h1 o1 .disableAll true (fun a b e => nomatch e)
-  have hF := cfgCall_frame (streamStop w) .disableAll true
-  have hen := cfgCall_disableAll_dev hh h1.dev.1 o1.2.2.2.2.2.2.2
-  -- in a reachable world the write cannot raise, so the disconnect goes through
-  have hok := cfgCall_disableAll_ok hh o1.2.2.2.2.2.2.2
+/-- disconnect on a switched-on handler always completes (whatever the device answers) and switches it off -/
+theorem g_disconnect {n flags : Nat} {desc : Desc} {w : World} (h : GInv n flags desc w)
+    (hon : GOn flags (rep n flags desc) w) (a : Ans) :
+    GInv n flags desc (step w .disconnect a).1 ∧ Off (step w .disconnect a).1 ∧ (step w .disconnect a).2 = .ok := by
+  obtain ⟨h1, o1, s1⟩ := g_streamStop h hon a
+  have hh := o1.2.2.2.2.1
+  obtain ⟨h2, o2⟩ := g_cfg h1 o1 .disableAll true a (fun _ _ e => nomatch e)
+  have hF := cfgCall_frame (streamStop w a) .disableAll true a
+  have hok := cfgCall_disableAll_ok h1.base o1.2.2 a
   rw [step_disconnect, hon.1, hh]
   simp only [↓reduceIte]
-  generalize cfgCall (streamStop w) .disableAll true = r at *
+  generalize cfgCall (streamStop w a) .disableAll true a = r at *
   obtain ⟨w2, res⟩ := r
   dsimp only at *
   subst hok
   dsimp only
-  have e : commDisconnect w2 =
-      { w2 with recvThr := false, intf := false, time := w2.time + drain,
-                commStarted := false, hasDev := false } := by
-    unfold commDisconnect; rw [o2.2.2.2.2.1]; rfl
-  rw [e]
-  exact ⟨⟨h2.dev, h2.fl, Or.inl ⟨rfl, rfl, o2.2.2.2.2.2.1.trans (hF.streamStarted.trans s1), rfl, rfl, rfl,
-    hF.streamStarted.trans s1⟩⟩, ⟨rfl, rfl, o2.2.2.2.2.2.1.trans (hF.streamStarted.trans s1), rfl, rfl, rfl,
-    hF.streamStarted.trans s1⟩, hF.devStarted.trans d1, hen⟩
+  rw [commDisconnect_started w2 o2.2.2.2.2.2.1]
+  have hoff : Off { { w2 with recvThr := false, intf := false, time := w2.time + drain, commStarted := false,
+                              hasDev := false, reported := none } with connected := false } :=
+    ⟨rfl, o2.2.1.trans (hF.streamStarted.trans s1), hF.streamStarted.trans s1, rfl, rfl, rfl, rfl, rfl⟩
+  exact ⟨⟨⟨h2.base.wf, h2.base.len, h2.base.fl, h2.base.ds⟩, Or.inl hoff⟩, hoff, rfl⟩
 
-/-- connect on a switched-off handler: handshake (which stops a stream left running), fresh client -/
-theorem off_connect {n flags : Nat} {w : World} (h : LInv n flags w) (hoff : Off w) :
-    LInv n flags (step w .connect).1 ∧ On flags (step w .connect).1 ∧
-    (step w .connect).1.devStarted = false := by
-  obtain ⟨h1, -, h3, -, -, h6, h7⟩ := hoff
-  have e : commConnect w =
+/-- connect on a switched-off handler: handshake (which stops a stream left running), fresh client, the device's
+    static description reported -/
+theorem off_connect {n flags : Nat} {desc : Desc} {w : World} (h : GInv n flags desc w) (hoff : Off w) (a : Ans) :
+    GInv n flags desc (step w .connect a).1 ∧ GOn flags (rep n flags desc) (step w .connect a).1 ∧
+    (step w .connect a).1.devStarted = false ∧ (step w .connect a).1.dev = w.dev ∧
+    (step w .connect a).1.cli = some (Client.init w.dev flags) ∧
+    (step w .connect a).1.streamStarted = false := by
+  obtain ⟨h1, h3, h7, -, -, -, h6, -⟩ := hoff
+  rw [step_connect, h1, if_neg Bool.false_ne_true, commConnect_stopped w h6]
+  have hcli : CliInv flags
       { w with intf := true, devStarted := false, recvThr := true,
-               log := w.log ++ okFrame (Requests.frameStart false) ++ okFrame Requests.frameCmninfo ++
+               log := w.log ++ okFrame (Requests.frameStart false) ++ okFrame Requests.frameCmninfo ++ padWrite w ++
                         chinfoFrames 0 w.dev.en.length,
                time := w.time + drain + drain,
-               hasDev := true, cli := some (Client.init w.dev w.flags), commStarted := true } := by
-    unfold commConnect; rw [h6]; rfl
-  rw [step_connect, h1, e]
-  have hs : CState flags (Client.init w.dev w.flags) w.dev := by
-    rw [h.fl]; exact CState.init w.dev flags h.dev.1
-  simp only [Bool.false_eq_true, ↓reduceIte]
-  refine (fun hon => ⟨⟨h.dev, h.fl, Or.inr hon⟩, hon, trivial⟩ : On flags _ → _) ?_
-  exact ⟨rfl, rfl, rfl, rfl, rfl, h3.trans h7.symm, h7.symm, _, rfl, hs⟩
+               intfPad := if w.desc.rxpadding > 0 then w.desc.rxpadding else w.intfPad,
+               hasDev := true, reported := some (describe w),
+               cli := some (Client.init w.dev w.flags), commStarted := true,
+               subs := List.replicate w.dev.en.length [], connected := true } :=
+    CliInv.init h.base.wf (by rw [h.base.fl])
+  refine (fun hon => ⟨⟨⟨h.base.wf, h.base.len, h.base.fl, h.base.ds⟩, Or.inr hon⟩, hon, rfl, rfl, ?_, h7⟩ :
+    GOn flags (rep n flags desc) _ → _) ?_
+  · exact ⟨rfl, h3.trans h7.symm, rfl, rfl, rfl, rfl, by rw [h.base.describe], hcli⟩
+  · show some (Client.init w.dev w.flags) = _
+    rw [h.base.fl]
 
 /-- every call other than disconnect keeps a switched-on handler switched on -/
-theorem on_step {n flags : Nat} {w : World} (h : LInv n flags w) (hon : On flags w) (c : Call)
-    (hc : c ≠ .disconnect) : LInv n flags (step w c).1 ∧ On flags (step w c).1 := by
-  have hh := hon.2.2.2.1
+theorem g_step {n flags : Nat} {desc : Desc} {w : World} (h : GInv n flags desc w)
+    (hon : GOn flags (rep n flags desc) w) (c : Call) (a : Ans) (hc : c ≠ .disconnect) :
+    GInv n flags desc (step w c a).1 ∧ GOn flags (rep n flags desc) (step w c a).1 := by
+  have hh := hon.2.2.2.2.1
   cases c with
-  | connect => rw [step_connect_idem w hon.1]; exact ⟨h, hon⟩
+  | connect => rw [step_connect_idem w a hon.1]; exact ⟨h, hon⟩
   | disconnect => exact absurd rfl hc
   | streamStart =>
     cases hs : w.streamStarted with
     | true =>
-      have e : step w .streamStart = (w, .ok) := by rw [step_streamStart, hs]; rfl
+      have e : step w .streamStart a = (w, .ok) := by rw [step_streamStart, hs]; rfl
       rw [e]; exact ⟨h, hon⟩
     | false =>
-      obtain ⟨hw, ow⟩ := on_write h hon
+      obtain ⟨hw, ow, hr⟩ := g_write h hon a
       rw [step_streamStart, hs]
       simp only [Bool.false_eq_true, ↓reduceIte]
-      generalize doWrite w = r at *
+      generalize doWrite w a = r at *
       obtain ⟨w1, res⟩ := r
-      cases res with
-      | raised e => exact ⟨hw, ow⟩
-      | ok =>
-        obtain ⟨o1, o2, o3, o4, o5, -, -, o8⟩ := ow
-        have hon' : On flags
-            { w1 with log := w1.log ++ okFrame (Requests.frameStart true), devStarted := true,
-                      streamThr := true, streamStarted := true } :=
-          ⟨o1, o2, o3, o4, o5, rfl, rfl, o8⟩
-        exact ⟨⟨hw.dev, hw.fl, Or.inr hon'⟩, hon'⟩
+      dsimp only at hr
+      subst hr
+      dsimp only
+      rw [commStartReq_eq]
+      obtain ⟨o1, -, o2, o3, o4, o5, o6, o7⟩ := ow
+      have hon' : GOn flags (rep n flags desc)
+          { w1 with log := w1.log ++ okFrame (Requests.frameStart true),
+                    devStarted := if applies a.st then true else w1.devStarted,
+                    time := w1.time + (startAck w1 a.st (if true = true then Gen.Comm.ackTimeoutStart else Gen.Comm.ackTimeoutStop)).2.2,
+                    streamThr := true, streamStarted := true } :=
+        ⟨o1, rfl, o2, o3, o4, o5, o6, o7.congr rfl rfl⟩
+      exact ⟨⟨⟨hw.base.wf, hw.base.len, hw.base.fl, hw.base.ds⟩, Or.inr hon'⟩, hon'⟩
   | streamStop =>
-    obtain ⟨h1, o1, -, -⟩ := on_streamStop h hon
+    obtain ⟨h1, o1, -⟩ := g_streamStop h hon a
     exact ⟨h1, o1⟩
   | sub c =>
     rw [step_sub]
     split
-    · have hon' : On flags { w with subs := w.subs.set c (w.subs.getD c [] ++ [w.nextQ]), nextQ := w.nextQ + 1 } :=
-        hon
-      exact ⟨⟨h.dev, h.fl, Or.inr hon'⟩, hon'⟩
+    · have hon' : GOn flags (rep n flags desc)
+          { w with subs := w.subs.set (pyIdx w.subs.length c) (w.subs.getD (pyIdx w.subs.length c) [] ++ [w.nextQ]),
+                   nextQ := w.nextQ + 1 } :=
+        ⟨hon.1, hon.2.1, hon.2.2.1, hon.2.2.2.1, hon.2.2.2.2.1, hon.2.2.2.2.2.1, hon.2.2.2.2.2.2.1,
+         hon.2.2.2.2.2.2.2.congr rfl rfl⟩
+      exact ⟨⟨⟨h.base.wf, h.base.len, h.base.fl, h.base.ds⟩, Or.inr hon'⟩, hon'⟩
     · exact ⟨h, hon⟩
   | unsub q =>
-    have hon' : On flags { w with subs := w.subs.map fun l => l.erase q } := hon
-    exact ⟨⟨h.dev, h.fl, Or.inr hon'⟩, hon'⟩
-  | chEnable cs wn => exact on_cfg h hon _ wn (fun a b e => nomatch e)
-  | chDisable cs wn => exact on_cfg h hon _ wn (fun a b e => nomatch e)
+    have hon' : GOn flags (rep n flags desc) { w with subs := w.subs.map fun l => l.erase q } :=
+      ⟨hon.1, hon.2.1, hon.2.2.1, hon.2.2.2.1, hon.2.2.2.2.1, hon.2.2.2.2.2.1, hon.2.2.2.2.2.2.1,
+       hon.2.2.2.2.2.2.2.congr rfl rfl⟩
+    exact ⟨⟨⟨h.base.wf, h.base.len, h.base.fl, h.base.ds⟩, Or.inr hon'⟩, hon'⟩
+  | chEnable cs wn => exact g_cfg h hon _ wn a (fun _ _ e => nomatch e)
+  | chDisable cs wn => exact g_cfg h hon _ wn a (fun _ _ e => nomatch e)
   | chDisableAll wn =>
-    have e : step w (.chDisableAll wn) = cfgCall w .disableAll wn := by rw [step_chDisableAll, hh]; rfl
-    rw [e]; exact on_cfg h hon _ wn (fun a b e => nomatch e)
+    have e : step w (.chDisableAll wn) a = cfgCall w .disableAll wn a := by rw [step_chDisableAll, hh]; rfl
+    rw [e]; exact g_cfg h hon _ wn a (fun _ _ e => nomatch e)
   | chDivider cs v wn =>
     rw [step_chDivider]
     split
     · exact ⟨h, hon⟩
-    · have e : (if (!w.hasDev) = true then (w, Res.raised Err.assertion) else cfgCall w (.divider cs v) wn) =
-          cfgCall w (.divider cs v) wn := by rw [hh]; rfl
-      rw [e]; exact on_cfg h hon _ wn (fun a b e => nomatch e)
+    · have e : (if (!w.hasDev) = true then (w, Res.raised Err.assertion) else cfgCall w (.divider (idxs w cs) v) wn a) =
+          cfgCall w (.divider (idxs w cs) v) wn a := by rw [hh]; rfl
+      rw [e]; exact g_cfg h hon _ wn a (fun _ _ e => nomatch e)
   | defaultCfg wn =>
-    have e : step w (.defaultCfg wn) = cfgCall w .defaultCfg wn := by rw [step_defaultCfg, hh]; rfl
-    rw [e]; exact on_cfg h hon _ wn (fun a b e => nomatch e)
-  | channelsWrite => exact on_write h hon
+    have e : step w (.defaultCfg wn) a = cfgCall w .defaultCfg wn a := by rw [step_defaultCfg, hh]; rfl
+    rw [e]; exact g_cfg h hon _ wn a (fun _ _ e => nomatch e)
+  | channelsWrite => exact ⟨(g_write h hon a).1, (g_write h hon a).2.1⟩
   | devChannelGet c =>
-    have e : step w (.devChannelGet c) = (w, .ok) := by rw [step_devChannelGet, hh]; rfl
+    have e : step w (.devChannelGet c) a = (w, .ok) := by rw [step_devChannelGet, hh]; rfl
     rw [e]; exact ⟨h, hon⟩
 
-theorem step_linv {n flags : Nat} {w : World} (h : LInv n flags w) (c : Call) : LInv n flags (step w c).1 := by
+theorem step_ginv {n flags : Nat} {desc : Desc} {w : World} (h : GInv n flags desc w) (c : Call) (a : Ans) :
+    GInv n flags desc (step w c a).1 := by
   rcases h.mode with hoff | hon
   · by_cases hc : c = .connect
-    · subst hc; exact (off_connect h hoff).1
-    · obtain ⟨h1, -, h3, -, -, h6⟩ := step_off w c hc hoff
-      exact ⟨h3 ▸ h.dev, h6.trans h.fl, Or.inl h1⟩
+    · subst hc; exact (off_connect h hoff a).1
+    · obtain ⟨h1, -, h3, -, -, h6, h7, -⟩ := step_off w c a hc hoff
+      exact ⟨⟨h3 ▸ h.base.wf, h3 ▸ h.base.len, h6.trans h.base.fl, h7.trans h.base.ds⟩, Or.inl h1⟩
   · by_cases hc : c = .disconnect
-    · subst hc; exact (on_disconnect h hon).1
-    · exact (on_step h hon c hc).1
+    · subst hc; exact (g_disconnect h hon a).1
+    · exact (g_step h hon c a hc).1
 
-/-- what a switched-on handler reports: the device's channel count, its current enable state, its flags -/
-theorem on_description {n flags : Nat} {w : World} (h : LInv n flags w) (hon : On flags w) :
-    ∃ c, w.cli = some c ∧ c.n = n ∧ c.enNow = w.dev.en ∧ c.copyEn = w.dev.en ∧
-      c.divSupported = Info.divSupported flags ∧ c.ackSupported = Info.ackSupported flags := by
-  obtain ⟨c, hc, hA, ha⟩ := hon.2.2.2.2.2.2.2
-  have he := hA.dEn hA.sEn
-  exact ⟨c, hc, hA.inv.lDevEn.symm.trans h.dev.2, he.symm, hA.inv.cpEn.trans he.symm, hA.divS, ha⟩
+/-! ### a bare low-level handler -/
+
+/-- invariant of every world reachable by calls on a bare `CommHandler` in front of a well-formed device -/
+structure CInv (n flags : Nat) (desc : Desc) (w : World) : Prop where
+  base : Base n flags desc w
+  hi : w.connected = false ∧ w.streamThr = false ∧ w.streamStarted = false
+  mode : COff w ∨ COn flags (rep n flags desc) w
+
+theorem fresh_cinv (d0 : Device) (started : Bool) (flags : Nat) (desc : Desc) (hd : WF d0) :
+    CInv d0.en.length flags desc (World.fresh d0 started flags desc) :=
+  ⟨⟨hd, rfl, rfl, rfl⟩, ⟨rfl, rfl, rfl⟩, Or.inl ⟨rfl, rfl, rfl, rfl, rfl⟩⟩
+
+theorem CInv.of_frame {n flags : Nat} {desc : Desc} {w w' : World} (h : CInv n flags desc w) (hF : CfgFrame w w')
+    (hb : Base n flags desc w') (hm : COff w' ∨ COn flags (rep n flags desc) w') : CInv n flags desc w' :=
+  ⟨hb, ⟨hF.connected.trans h.hi.1, hF.streamThr.trans h.hi.2.1, hF.streamStarted.trans h.hi.2.2⟩, hm⟩
+
+theorem c_cfg {n flags : Nat} {desc : Desc} {w : World} (h : CInv n flags desc w) (op : Op) (wn : Bool) (a : Ans)
+    (hop : ∀ x y, op ≠ .write x y) : CInv n flags desc (cfgCall w op wn a).1 := by
+  have hF := cfgCall_frame w op wn a
+  rcases h.mode with hoff | hon
+  · obtain ⟨cl, e⟩ := cfgCall_nodev w op wn a hoff.2.2.1
+    refine h.of_frame hF ?_ (Or.inl (hoff.of_frame hF))
+    rw [e]; exact ⟨h.base.wf, h.base.len, h.base.fl, h.base.ds⟩
+  · obtain ⟨hb, hc⟩ := cfgCall_con h.base hon op wn a hop
+    exact h.of_frame hF hb (Or.inr hc)
+
+theorem c_write {n flags : Nat} {desc : Desc} {w : World} (h : CInv n flags desc w) (a : Ans) :
+    CInv n flags desc (doWrite w a).1 := by
+  have hF := doWrite_frame w a
+  rcases h.mode with hoff | hon
+  · rw [doWrite_nodev w a hoff.2.2.1]; exact h
+  · obtain ⟨hb, hc, -⟩ := doWrite_con h.base hon a
+    exact h.of_frame hF hb (Or.inr hc)
+
+theorem c_guard {n flags : Nat} {desc : Desc} {w : World} (h : CInv n flags desc w) (op : Op) (a : Ans)
+    (hop : ∀ x y, op ≠ .write x y) :
+    CInv n flags desc (if (!w.hasDev) = true then (w, Res.raised Err.assertion) else cfgCall w op false a).1 := by
+  split
+  · exact h
+  · exact c_cfg h op false a hop
+
+theorem commStep_connect (w : World) (a : Ans) : commStep w .connect a = (commConnect w, .ok) := rfl
+theorem commStep_disconnect (w : World) (a : Ans) : commStep w .disconnect a = (commDisconnect w, .ok) := rfl
+theorem commStep_streamStart (w : World) (a : Ans) : commStep w .streamStart a =
+    ((commStartReq w true a.st).1, .ack (commStartReq w true a.st).2.1 (commStartReq w true a.st).2.2) := rfl
+theorem commStep_streamStop (w : World) (a : Ans) : commStep w .streamStop a =
+    ((commStartReq w false a.st).1, .ack (commStartReq w false a.st).2.1 (commStartReq w false a.st).2.2) := rfl
+
+theorem c_startReq {n flags : Nat} {desc : Desc} {w : World} (h : CInv n flags desc w) (s : Bool) (o : Outcome) :
+    CInv n flags desc (commStartReq w s o).1 := by
+  rw [commStartReq_eq]
+  refine ⟨⟨h.base.wf, h.base.len, h.base.fl, h.base.ds⟩, h.hi, ?_⟩
+  rcases h.mode with hoff | hon
+  · exact Or.inl hoff
+  · exact Or.inr ⟨hon.1, hon.2.1, hon.2.2.1, hon.2.2.2.1, hon.2.2.2.2.1, hon.2.2.2.2.2.congr rfl rfl⟩
+
+theorem c_connect {n flags : Nat} {desc : Desc} {w : World} (h : CInv n flags desc w) :
+    CInv n flags desc (commConnect w) ∧ COn flags (rep n flags desc) (commConnect w) := by
+  rcases h.mode with hoff | hon
+  · rw [commConnect_stopped w hoff.2.2.2.1]
+    have hcli : CliInv flags
+        { w with intf := true, devStarted := false, recvThr := true,
+                 log := w.log ++ okFrame (Requests.frameStart false) ++ okFrame Requests.frameCmninfo ++ padWrite w ++
+                          chinfoFrames 0 w.dev.en.length,
+                 time := w.time + drain + drain,
+                 intfPad := if w.desc.rxpadding > 0 then w.desc.rxpadding else w.intfPad,
+                 hasDev := true, reported := some (describe w),
+                 cli := some (Client.init w.dev w.flags), commStarted := true } :=
+      CliInv.init h.base.wf (by rw [h.base.fl])
+    refine (fun hon => ⟨⟨⟨h.base.wf, h.base.len, h.base.fl, h.base.ds⟩, h.hi, Or.inr hon⟩, hon⟩ :
+      COn flags (rep n flags desc) _ → _) ?_
+    exact ⟨rfl, rfl, rfl, rfl, by rw [h.base.describe], hcli⟩
+  · rw [commConnect_started w hon.2.2.2.1]; exact ⟨h, hon⟩
+
+theorem c_disconnect {n flags : Nat} {desc : Desc} {w : World} (h : CInv n flags desc w) :
+    CInv n flags desc (commDisconnect w) ∧ COff (commDisconnect w) := by
+  rcases h.mode with hoff | hon
+  · rw [commDisconnect_stopped w hoff.2.2.2.1]; exact ⟨h, hoff⟩
+  · rw [commDisconnect_started w hon.2.2.2.1]
+    exact ⟨⟨⟨h.base.wf, h.base.len, h.base.fl, h.base.ds⟩, h.hi, Or.inl ⟨rfl, rfl, rfl, rfl, rfl⟩⟩, ⟨rfl, rfl, rfl, rfl, rfl⟩⟩
+
+theorem commStep_cinv {n flags : Nat} {desc : Desc} {w : World} (h : CInv n flags desc w) (c : CommCall) (a : Ans) :
+    CInv n flags desc (commStep w c a).1 := by
+  cases c with
+  | connect => exact (c_connect h).1
+  | disconnect => exact (c_disconnect h).1
+  | streamStart => rw [commStep_streamStart]; exact c_startReq h true a.st
+  | streamStop => rw [commStep_streamStop]; exact c_startReq h false a.st
+  | chEnable cs => exact c_cfg h _ false a (fun _ _ e => nomatch e)
+  | chDisable cs => exact c_cfg h _ false a (fun _ _ e => nomatch e)
+  | chDivider cs v =>
+    have e : commStep w (.chDivider cs v) a =
+        if v < 0 ∨ v > 255 then (w, .raised .valueError)
+        else if !w.hasDev then (w, .raised .assertion)
+        else cfgCall w (.divider (idxs w cs) v) false a := rfl
+    rw [e]
+    split
+    · exact h
+    · exact c_guard h _ a (fun _ _ e => nomatch e)
+  | chEnableAll => exact c_guard h .enableAll a (fun _ _ e => nomatch e)
+  | chDisableAll => exact c_guard h .disableAll a (fun _ _ e => nomatch e)
+  | defaultCfg => exact c_guard h .defaultCfg a (fun _ _ e => nomatch e)
+  | channelsWrite => exact c_write h a
 
 /-! ### histories -/
 
@@ -523,6 +817,39 @@ theorem run_append (w : World) (l l' : List Call) :
 theorem run_snoc (w : World) (l : List Call) (c : Call) : (run w (l ++ [c])).1 = (step (run w l).1 c).1 := by
   rw [run_append]; rfl
 
+theorem runA_cons (w : World) (c : Call × Ans) (r : List (Call × Ans)) :
+    runA w (c :: r) = ((runA (step w c.1 c.2).1 r).1, (step w c.1 c.2).2 :: (runA (step w c.1 c.2).1 r).2) := rfl
+
+theorem runA_append (w : World) (l l' : List (Call × Ans)) :
+    runA w (l ++ l') = ((runA (runA w l).1 l').1, (runA w l).2 ++ (runA (runA w l).1 l').2) := by
+  induction l generalizing w with
+  | nil => rfl
+  | cons c r ih => rw [List.cons_append, runA_cons, runA_cons, ih]; rfl
+
+theorem runA_snoc (w : World) (l : List (Call × Ans)) (c : Call × Ans) :
+    (runA w (l ++ [c])).1 = (step (runA w l).1 c.1 c.2).1 := by
+  rw [runA_append]; rfl
+
+/-- a history in which everything is acknowledged is a history with answers -/
+theorem run_eq_runA (w : World) (l : List Call) : run w l = runA w (l.map fun c => (c, {})) := by
+  induction l generalizing w with
+  | nil => rfl
+  | cons c r ih => rw [run_cons, List.map_cons, runA_cons, ih]
+
+theorem commRun_cons (w : World) (c : CommCall × Ans) (r : List (CommCall × Ans)) :
+    commRun w (c :: r) =
+      ((commRun (commStep w c.1 c.2).1 r).1, (commStep w c.1 c.2).2 :: (commRun (commStep w c.1 c.2).1 r).2) := rfl
+
+theorem commRun_append (w : World) (l l' : List (CommCall × Ans)) :
+    commRun w (l ++ l') = ((commRun (commRun w l).1 l').1, (commRun w l).2 ++ (commRun (commRun w l).1 l').2) := by
+  induction l generalizing w with
+  | nil => rfl
+  | cons c r ih => rw [List.cons_append, commRun_cons, commRun_cons, ih]; rfl
+
+theorem commRun_snoc (w : World) (l : List (CommCall × Ans)) (c : CommCall × Ans) :
+    (commRun w (l ++ [c])).1 = (commStep (commRun w l).1 c.1 c.2).1 := by
+  rw [commRun_append]; rfl
+
 theorem snoc_induction {α : Type} {P : List α → Prop} (nil : P []) (snoc : ∀ l a, P l → P (l ++ [a])) :
     ∀ l, P l := by
   intro l
@@ -531,19 +858,205 @@ theorem snoc_induction {α : Type} {P : List α → Prop} (nil : P []) (snoc : 
   | nil => exact nil
   | cons a r ih => rw [List.reverse_cons]; exact snoc _ _ ih
 
+/-- every world reachable from a fresh high-level handler, whatever the device answers, satisfies `GInv` -/
+theorem reachA (d0 : Device) (started : Bool) (flags : Nat) (desc : Desc) (hd : WF d0) (hist : List (Call × Ans)) :
+    GInv d0.en.length flags desc (runA (World.fresh d0 started flags desc) hist).1 := by
+  induction hist using snoc_induction with
+  | nil => exact fresh_ginv d0 started flags desc hd
+  | snoc l c ih => rw [runA_snoc]; exact step_ginv ih c.1 c.2
+
+/-- every world reachable from a fresh bare `CommHandler`, whatever the device answers, satisfies `CInv` -/
+theorem reachC (d0 : Device) (started : Bool) (flags : Nat) (desc : Desc) (hd : WF d0) (hist : List (CommCall × Ans)) :
+    CInv d0.en.length flags desc (commRun (World.fresh d0 started flags desc) hist).1 := by
+  induction hist using snoc_induction with
+  | nil => exact fresh_cinv d0 started flags desc hd
+  | snoc l c ih => rw [commRun_snoc]; exact commStep_cinv ih c.1 c.2
+
+/-! ### histories in which the device acknowledges everything: client and device stay in agreement -/
+
+/-- client and device agree (the all-acknowledged invariant of Lemmas/Config) and the client's
+    capability flags are the device's -/
+def CState (flags : Nat) (c : Client) (d : Device) : Prop :=
+  AckState (Info.divSupported flags) d.div c d ∧ c.ackSupported = Info.ackSupported flags
+
+theorem ackState_reanchor {ds : Bool} {dv0 : List Int} {c : Client} {d : Device} (h : AckState ds dv0 c d) :
+    AckState ds d.div c d :=
+  ⟨h.inv, h.dEn, h.dDiv, h.sEn, h.sDiv, h.divS, fun _ => rfl⟩
+
+theorem CState.init (d : Device) (flags : Nat) (hd : WF d) : CState flags (Client.init d flags) d :=
+  ⟨init_ackState d flags hd, rfl⟩
+
+theorem CState.setter {flags : Nat} {c : Client} {d : Device} (h : CState flags c d) (op : Op)
+    (hop : ∀ a b, op ≠ .write a b) : CState flags (Config.step c d op).1 d := by
+  have h1 := h.1.step op (ackOp_of_nonwrite op hop)
+  rw [(step_silent c d op hop).1] at h1
+  exact ⟨ackState_reanchor h1, (step_fixed c d op).2.1.trans h.2⟩
+
+/-- an acknowledged write keeps client and device in agreement and leaves the device with exactly the
+    requested enable vector -/
+theorem CState.write {flags : Nat} {c : Client} {d : Device} (h : CState flags c d) :
+    CState flags (channelsWrite c d .ack .ack).1 (channelsWrite c d .ack .ack).2.1 ∧
+    (channelsWrite c d .ack .ack).2.1.en = c.enNew := by
+  have h1 : AckState _ _ (Config.step c d (.write .ack .ack)).1 (Config.step c d (.write .ack .ack)).2.1 :=
+    h.1.step (.write .ack .ack) ⟨rfl, rfl⟩
+  have h2 : CState flags (channelsWrite c d .ack .ack).1 (channelsWrite c d .ack .ack).2.1 :=
+    ⟨ackState_reanchor h1, (channelsWrite_fixed c d .ack .ack).2.1.trans h.2⟩
+  have hI := h.1.inv
+  refine ⟨h2, ?_⟩
+  by_cases hn : c.n = 0
+  · rw [channelsWrite_zero c d .ack .ack hn]
+    exact (hI.nil hn).2.2.2.2.1.trans (hI.nil hn).2.1.symm
+  obtain ⟨-, e2⟩ := channelsWrite_ack hI hn h.1.dEn h.1.dDiv
+  rw [e2]
+  cases c.divSupported <;> rfl
+
+/-- the world's client agrees with the world's device -/
+def Synced (flags : Nat) (w : World) : Prop := ∃ c, w.cli = some c ∧ CState flags c w.dev
+
+theorem Synced.congr {flags : Nat} {w w' : World} (h : Synced flags w) (hc : w'.cli = w.cli) (hd : w'.dev = w.dev) :
+    Synced flags w' := by
+  obtain ⟨c, h1, h2⟩ := h
+  exact ⟨c, hc.trans h1, hd ▸ h2⟩
+
+theorem doWrite_synced {flags : Nat} {w : World} (hh : w.hasDev = true) (hs : Synced flags w) :
+    Synced flags (doWrite w).1 := by
+  obtain ⟨c, hc, hS⟩ := hs
+  rw [doWrite_some w {} c hh hc]
+  exact ⟨_, rfl, hS.write.1⟩
+
+theorem cfgCall_synced {flags : Nat} {w : World} (op : Op) (wn : Bool) (hop : ∀ a b, op ≠ .write a b)
+    (hh : w.hasDev = true) (hs : Synced flags w) : Synced flags (cfgCall w op wn).1 := by
+  obtain ⟨c, hc, hS⟩ := hs
+  have hS' := hS.setter op hop
+  rcases cfgCall_some w op wn {} c hc with e | e <;> rw [e]
+  · exact ⟨_, rfl, hS'⟩
+  · exact doWrite_synced (w := { w with cli := some (Config.step c w.dev op).1 }) hh ⟨_, rfl, hS'⟩
+
+/-- `ch_disable_all(True)` on a handler in agreement with an acknowledging device leaves every channel disabled -/
+theorem cfgCall_disableAll_dev {flags : Nat} {w : World} (hh : w.hasDev = true) (hs : Synced flags w) :
+    ∀ b ∈ (cfgCall w .disableAll true).1.dev.en, b = false := by
+  obtain ⟨c, hc, hS⟩ := hs
+  have e : cfgCall w .disableAll true = doWrite { w with cli := some (Config.step c w.dev .disableAll).1 } := by
+    unfold cfgCall; rw [hc]; rfl
+  have hS' := hS.setter .disableAll (fun a b e => nomatch e)
+  rw [e, doWrite_some { w with cli := some (Config.step c w.dev .disableAll).1 } {} _ hh rfl]
+  intro b hb
+  have hb' : b ∈ (channelsWrite (Config.step c w.dev .disableAll).1 w.dev .ack .ack).2.1.en := hb
+  rw [hS'.write.2] at hb'
+  exact (List.mem_replicate.mp hb').2
+
+/-- with an acknowledging device: the device streams exactly while the handler's stream is started, and client
+    and device agree -/
+def AOn (flags : Nat) (w : World) : Prop := w.devStarted = w.streamStarted ∧ Synced flags w
+
+theorem AOn.of_frame {flags : Nat} {w w' : World} (h : AOn flags w) (hF : CfgFrame w w') (hs : Synced flags w') :
+    AOn flags w' := ⟨by rw [hF.devStarted, hF.streamStarted]; exact h.1, hs⟩
+
+theorem a_streamStop {flags : Nat} {w : World} (hA : AOn flags w) :
+    (streamStop w).devStarted = false ∧ (streamStop w).streamStarted = false ∧ Synced flags (streamStop w) := by
+  cases hs : w.streamStarted with
+  | false => rw [streamStop_idle w {} hs]; exact ⟨hA.1.trans hs, hs, hA.2⟩
+  | true => rw [streamStop_active w {} hs, commStartReq_eq]; exact ⟨rfl, rfl, hA.2.congr rfl rfl⟩
+
+/-- with an acknowledging device a disconnect leaves the device stopped and every channel disabled -/
+theorem a_disconnect {n flags : Nat} {desc : Desc} {w : World} (h : GInv n flags desc w)
+    (hon : GOn flags (rep n flags desc) w) (hA : AOn flags w) :
+    (step w .disconnect).1.devStarted = false ∧ ∀ b ∈ (step w .disconnect).1.dev.en, b = false := by
+  obtain ⟨h1, o1, -⟩ := g_streamStop h hon {}
+  obtain ⟨d1, -, y1⟩ := a_streamStop hA
+  have hh := o1.2.2.2.2.1
+  obtain ⟨-, o2⟩ := g_cfg h1 o1 .disableAll true {} (fun _ _ e => nomatch e)
+  have hF := cfgCall_frame (streamStop w {}) .disableAll true {}
+  have hen := cfgCall_disableAll_dev hh y1
+  have hok := cfgCall_disableAll_ok h1.base o1.2.2 {}
+  rw [step_disconnect, hon.1, hh]
+  simp only [↓reduceIte]
+  generalize cfgCall (streamStop w {}) .disableAll true {} = r at *
+  obtain ⟨w2, res⟩ := r
+  dsimp only at *
+  subst hok
+  dsimp only
+  rw [commDisconnect_started w2 o2.2.2.2.2.2.1]
+  exact ⟨hF.devStarted.trans d1, hen⟩
+
+/-- the acknowledged-history invariant is kept by every call -/
+theorem a_step {n flags : Nat} {desc : Desc} {w : World} (h : GInv n flags desc w)
+    (hA : w.connected = true → AOn flags w) (c : Call) (hc' : (step w c).1.connected = true) :
+    AOn flags (step w c).1 := by
+  rcases h.mode with hoff | hon
+  · by_cases hc : c = .connect
+    · subst hc
+      obtain ⟨-, -, e1, e2, e3, e4⟩ := off_connect h hoff {}
+      exact ⟨e1.trans e4.symm, _, e3, e2 ▸ CState.init w.dev flags h.base.wf⟩
+    · exact absurd ((step_off w c {} hc hoff).1.1.symm.trans hc') (by decide)
+  · have hA := hA hon.1
+    have hh := hon.2.2.2.2.1
+    cases c with
+    | connect => rw [step_connect_idem w {} hon.1]; exact hA
+    | disconnect => exact absurd ((g_disconnect h hon {}).2.1.1.symm.trans hc') (by decide)
+    | streamStart =>
+      cases hs : w.streamStarted with
+      | true =>
+        have e : step w .streamStart = (w, .ok) := by rw [step_streamStart, hs]; rfl
+        rw [e]; exact hA
+      | false =>
+        obtain ⟨-, -, hr⟩ := g_write h hon {}
+        have hsy := doWrite_synced hh hA.2
+        rw [step_streamStart, hs]
+        simp only [Bool.false_eq_true, ↓reduceIte]
+        generalize doWrite w {} = r at *
+        obtain ⟨w1, res⟩ := r
+        dsimp only at hr hsy
+        subst hr
+        dsimp only
+        rw [commStartReq_eq]
+        exact ⟨rfl, hsy.congr rfl rfl⟩
+    | streamStop =>
+      obtain ⟨d1, s1, y1⟩ := a_streamStop hA
+      exact ⟨d1.trans s1.symm, y1⟩
+    | sub c =>
+      rw [step_sub]
+      split
+      · exact ⟨hA.1, hA.2.congr rfl rfl⟩
+      · exact hA
+    | unsub q => exact ⟨hA.1, hA.2.congr rfl rfl⟩
+    | chEnable cs wn => exact hA.of_frame (cfgCall_frame _ _ _ _) (cfgCall_synced _ wn (fun _ _ e => nomatch e) hh hA.2)
+    | chDisable cs wn => exact hA.of_frame (cfgCall_frame _ _ _ _) (cfgCall_synced _ wn (fun _ _ e => nomatch e) hh hA.2)
+    | chDisableAll wn =>
+      have e : step w (.chDisableAll wn) = cfgCall w .disableAll wn := by rw [step_chDisableAll, hh]; rfl
+      rw [e]
+      exact hA.of_frame (cfgCall_frame _ _ _ _) (cfgCall_synced _ wn (fun _ _ e => nomatch e) hh hA.2)
+    | chDivider cs v wn =>
+      rw [step_chDivider]
+      split
+      · exact hA
+      · have e : (if (!w.hasDev) = true then (w, Res.raised Err.assertion) else cfgCall w (.divider (idxs w cs) v) wn {}) =
+            cfgCall w (.divider (idxs w cs) v) wn {} := by rw [hh]; rfl
+        rw [e]
+        exact hA.of_frame (cfgCall_frame _ _ _ _) (cfgCall_synced _ wn (fun _ _ e => nomatch e) hh hA.2)
+    | defaultCfg wn =>
+      have e : step w (.defaultCfg wn) = cfgCall w .defaultCfg wn := by rw [step_defaultCfg, hh]; rfl
+      rw [e]
+      exact hA.of_frame (cfgCall_frame _ _ _ _) (cfgCall_synced _ wn (fun _ _ e => nomatch e) hh hA.2)
+    | channelsWrite => exact hA.of_frame (doWrite_frame w {}) (doWrite_synced hh hA.2)
+    | devChannelGet c =>
+      have e : step w (.devChannelGet c) = (w, .ok) := by rw [step_devChannelGet, hh]; rfl
+      rw [e]; exact hA
+
 /-- history predicate: once a connect has occurred, a disconnected handler has left the device with the
     stream stopped and every channel disabled -/
 def Hist (seen : Prop) (w : World) : Prop :=
   seen → w.connected = false → w.devStarted = false ∧ ∀ b ∈ w.dev.en, b = false
 
-theorem step_hist {n flags : Nat} {w : World} (h : LInv n flags w) (l : List Call) (c : Call)
+theorem step_hist {n flags : Nat} {desc : Desc} {w : World} (h : GInv n flags desc w)
+    (hA : w.connected = true → AOn flags w) (l : List Call) (c : Call)
     (hH : Hist (Call.connect ∈ l) w) : Hist (Call.connect ∈ l ++ [c]) (step w c).1 := by
   intro hm hdis
   rcases h.mode with hoff | hon
   · by_cases hc : c = .connect
     · subst hc
-      exact absurd ((off_connect h hoff).2.1.1.symm.trans hdis) (by decide)
-    · obtain ⟨-, -, h3, h4, -, -⟩ := step_off w c hc hoff
+      exact absurd ((off_connect h hoff {}).2.1.1.symm.trans hdis) (by decide)
+    · obtain ⟨-, -, h3, h4, -⟩ := step_off w c {} hc hoff
       have hl : Call.connect ∈ l := by
         rcases List.mem_append.mp hm with hm | hm
         · exact hm
@@ -552,81 +1065,441 @@ theorem step_hist {n flags : Nat} {w : World} (h : LInv n flags w) (l : List Cal
       exact hH hl hoff.1
   · by_cases hc : c = .disconnect
     · subst hc
-      obtain ⟨-, -, h3, h4⟩ := on_disconnect h hon
-      exact ⟨h3, h4⟩
-    · exact absurd ((on_step h hon c hc).2.1.symm.trans hdis) (by decide)
+      exact a_disconnect h hon (hA hon.1)
+    · exact absurd ((g_step h hon c {} hc).2.1.symm.trans hdis) (by decide)
 
-/-- every world reachable from a fresh handler satisfies the invariant and the history predicate -/
-theorem reach (d0 : Device) (started : Bool) (flags : Nat) (hd : WF d0) (calls : List Call) :
-    LInv d0.en.length flags (run (World.fresh d0 started flags) calls).1 ∧
-    Hist (Call.connect ∈ calls) (run (World.fresh d0 started flags) calls).1 := by
+/-- every world reachable from a fresh handler in front of an acknowledging device -/
+theorem reach (d0 : Device) (started : Bool) (flags : Nat) (desc : Desc) (hd : WF d0) (calls : List Call) :
+    GInv d0.en.length flags desc (run (World.fresh d0 started flags desc) calls).1 ∧
+    ((run (World.fresh d0 started flags desc) calls).1.connected = true →
+      AOn flags (run (World.fresh d0 started flags desc) calls).1) ∧
+    Hist (Call.connect ∈ calls) (run (World.fresh d0 started flags desc) calls).1 := by
   induction calls using snoc_induction with
-  | nil => exact ⟨fresh_linv d0 started flags hd, fun hm => nomatch hm⟩
+  | nil =>
+    refine ⟨fresh_ginv d0 started flags desc hd, ?_, ?_⟩
+    · intro h; exact Bool.noConfusion (h : false = true)
+    · intro hm; exact absurd hm List.not_mem_nil
   | snoc l c ih =>
     rw [run_snoc]
-    exact ⟨step_linv ih.1 c, step_hist ih.1 l c ih.2⟩
+    exact ⟨step_ginv ih.1 c {}, a_step ih.1 ih.2.1 c, step_hist ih.1 ih.2.1 l c ih.2.2⟩
+
+/-! ### bounded time of every call -/
+
+theorem drain_eq : drain = 8 := by decide
+
+theorem streamStop_time (w : World) (a : Ans) : w.time ≤ (streamStop w a).time ∧ (streamStop w a).time ≤ w.time + 10 := by
+  cases hs : w.streamStarted with
+  | false => rw [streamStop_idle w a hs]; exact ⟨Nat.le_refl _, Nat.le_add_right _ _⟩
+  | true => rw [streamStop_active w a hs]; exact commStartReq_time w false a.st
+
+theorem commConnect_time (w : World) : (commConnect w).time ≤ w.time + 16 := by
+  cases h : w.commStarted with
+  | true => rw [commConnect_started w h]; exact Nat.le_add_right _ _
+  | false =>
+    rw [commConnect_stopped w h]
+    show w.time + drain + drain ≤ w.time + 16
+    rw [drain_eq]
+    exact Nat.le_refl _
+
+theorem commDisconnect_time (w : World) : (commDisconnect w).time ≤ w.time + 8 := by
+  cases h : w.commStarted with
+  | false => rw [commDisconnect_stopped w h]; exact Nat.le_add_right _ _
+  | true =>
+    rw [commDisconnect_started w h]
+    show w.time + drain ≤ w.time + 8
+    rw [drain_eq]
+    exact Nat.le_refl _
+
+/-- every public call of the high-level handler returns within 3.8 s of waiting for the device, whatever the
+    device answers: at most one start/stop ACK wait, two configuration ACK waits, the draining polls -/
+theorem step_bounded (w : World) (c : Call) (a : Ans) : (step w c a).1.time ≤ w.time + 38 := by
+  have cfg : ∀ op wn, (cfgCall w op wn a).1.time ≤ w.time + 38 := fun op wn =>
+    Nat.le_trans (cfgCall_time w op wn a).2 (by omega)
+  have same : w.time ≤ w.time + 38 := Nat.le_add_right _ _
+  cases c with
+  | connect =>
+    rw [step_connect]
+    split
+    · exact same
+    · exact Nat.le_trans (commConnect_time w) (by omega)
+  | disconnect =>
+    rw [step_disconnect]
+    split
+    · have hs := streamStop_time w a
+      cases hh : (streamStop w a).hasDev with
+      | false => exact Nat.le_trans hs.2 (by omega)
+      | true =>
+        simp only [↓reduceIte]
+        have hc := cfgCall_time (streamStop w a) .disableAll true a
+        generalize cfgCall (streamStop w a) .disableAll true a = r at *
+        obtain ⟨w2, res⟩ := r
+        dsimp only at hc
+        cases res with
+        | ok =>
+          have hd := commDisconnect_time w2
+          show (commDisconnect w2).time ≤ w.time + 38
+          omega
+        | raised e => show w2.time ≤ w.time + 38; omega
+        | ack s code => show w2.time ≤ w.time + 38; omega
+    · exact same
+  | streamStart =>
+    rw [step_streamStart]
+    split
+    · exact same
+    · have hw := doWrite_time w a
+      generalize doWrite w a = r at *
+      obtain ⟨w1, res⟩ := r
+      dsimp only at hw
+      cases res with
+      | ok =>
+        have hs := commStartReq_time w1 true a.st
+        show (commStartReq w1 true a.st).1.time ≤ w.time + 38
+        omega
+      | raised e => show w1.time ≤ w.time + 38; omega
+      | ack s code => show w1.time ≤ w.time + 38; omega
+  | streamStop => exact Nat.le_trans (streamStop_time w a).2 (by omega)
+  | sub c =>
+    rw [step_sub]
+    split <;> exact same
+  | unsub q => exact same
+  | chEnable cs wn => exact cfg _ _
+  | chDisable cs wn => exact cfg _ _
+  | chDisableAll wn =>
+    rw [step_chDisableAll]
+    split
+    · exact same
+    · exact cfg _ _
+  | chDivider cs v wn =>
+    rw [step_chDivider]
+    split
+    · exact same
+    · split
+      · exact same
+      · exact cfg _ _
+  | defaultCfg wn =>
+    rw [step_defaultCfg]
+    split
+    · exact same
+    · exact cfg _ _
+  | channelsWrite => exact Nat.le_trans (doWrite_time w a) (by omega)
+  | devChannelGet c =>
+    rw [step_devChannelGet]
+    split <;> exact same
+
+/-- every public call of a bare `CommHandler` returns within 2 s of waiting for the device -/
+theorem commStep_bounded (w : World) (c : CommCall) (a : Ans) : (commStep w c a).1.time ≤ w.time + 20 := by
+  have cfg : ∀ op, (cfgCall w op false a).1.time ≤ w.time + 20 := fun op => (cfgCall_time w op false a).2
+  have same : w.time ≤ w.time + 20 := Nat.le_add_right _ _
+  have guard : ∀ op, (if (!w.hasDev) = true then (w, Res.raised Err.assertion) else cfgCall w op false a).1.time ≤ w.time + 20 := by
+    intro op
+    split
+    · exact same
+    · exact cfg op
+  cases c with
+  | connect => exact Nat.le_trans (commConnect_time w) (by omega)
+  | disconnect => exact Nat.le_trans (commDisconnect_time w) (by omega)
+  | streamStart => rw [commStep_streamStart]; exact Nat.le_trans (commStartReq_time w true a.st).2 (by omega)
+  | streamStop => rw [commStep_streamStop]; exact Nat.le_trans (commStartReq_time w false a.st).2 (by omega)
+  | chEnable cs => exact cfg _
+  | chDisable cs => exact cfg _
+  | chDivider cs v =>
+    have e : commStep w (.chDivider cs v) a =
+        if v < 0 ∨ v > 255 then (w, .raised .valueError)
+        else if !w.hasDev then (w, .raised .assertion)
+        else cfgCall w (.divider (idxs w cs) v) false a := rfl
+    rw [e]
+    split
+    · exact same
+    · exact guard _
+  | chEnableAll => exact guard .enableAll
+  | chDisableAll => exact guard .disableAll
+  | defaultCfg => exact guard .defaultCfg
+  | channelsWrite => exact doWrite_time w a
 
 /-! ### run-level statements (C09) -/
 
-theorem c09_state_machine (d0 : Device) (started : Bool) (flags : Nat) (calls : List Call) (hd : WF d0) :
-    let w := (run (World.fresh d0 started flags) calls).1
+theorem Off.facts {w : World} (h : Off w) :
+    w.recvThr = false ∧ w.streamThr = false ∧ w.intf = false ∧ w.hasDev = false ∧ w.commStarted = false ∧
+    w.streamStarted = false ∧ w.reported = none :=
+  ⟨h.2.2.2.1, h.2.1, h.2.2.2.2.1, h.2.2.2.2.2.1, h.2.2.2.2.2.2.1, h.2.2.1, h.2.2.2.2.2.2.2⟩
+
+theorem c09_state_machine_any (d0 : Device) (started : Bool) (flags : Nat) (desc : Desc) (hist : List (Call × Ans))
+    (hd : WF d0) :
+    let w := (runA (World.fresh d0 started flags desc) hist).1
+    (w.connected = false → w.recvThr = false ∧ w.streamThr = false ∧ w.intf = false ∧ w.hasDev = false ∧
+        w.commStarted = false ∧ w.streamStarted = false ∧ w.reported = none) ∧
+    (w.connected = true → w.recvThr = true ∧ w.intf = true ∧ w.hasDev = true ∧ w.commStarted = true ∧
+        w.streamThr = w.streamStarted ∧ w.reported = some (rep d0.en.length flags desc)) := by
+  intro w
+  rcases (reachA d0 started flags desc hd hist).mode with hoff | hon
+  · exact ⟨fun _ => hoff.facts, fun hc => absurd (hoff.1.symm.trans hc) (by decide)⟩
+  · exact ⟨fun hc => absurd (hon.1.symm.trans hc) (by decide),
+      fun _ => ⟨hon.2.2.1, hon.2.2.2.1, hon.2.2.2.2.1, hon.2.2.2.2.2.1, hon.2.1, hon.2.2.2.2.2.2.1⟩⟩
+
+theorem c09_state_machine (d0 : Device) (started : Bool) (flags : Nat) (desc : Desc) (calls : List Call) (hd : WF d0) :
+    let w := (run (World.fresh d0 started flags desc) calls).1
     (w.connected = false → w.recvThr = false ∧ w.streamThr = false ∧ w.intf = false ∧ w.hasDev = false ∧
         w.commStarted = false ∧ w.streamStarted = false) ∧
     (w.connected = true → w.recvThr = true ∧ w.intf = true ∧ w.hasDev = true ∧ w.commStarted = true ∧
         w.streamThr = w.streamStarted ∧ w.devStarted = w.streamStarted) := by
   intro w
-  rcases (reach d0 started flags hd calls).1.mode with hoff | hon
-  · exact ⟨fun _ => hoff.2, fun hc => absurd (hoff.1.symm.trans hc) (by decide)⟩
+  obtain ⟨hG, hA, -⟩ := reach d0 started flags desc hd calls
+  rcases hG.mode with hoff | hon
+  · have f := hoff.facts
+    exact ⟨fun _ => ⟨f.1, f.2.1, f.2.2.1, f.2.2.2.1, f.2.2.2.2.1, f.2.2.2.2.2.1⟩,
+      fun hc => absurd (hoff.1.symm.trans hc) (by decide)⟩
   · exact ⟨fun hc => absurd (hon.1.symm.trans hc) (by decide),
-      fun _ => ⟨hon.2.1, hon.2.2.1, hon.2.2.2.1, hon.2.2.2.2.1, hon.2.2.2.2.2.1, hon.2.2.2.2.2.2.1⟩⟩
+      fun hc => ⟨hon.2.2.1, hon.2.2.2.1, hon.2.2.2.2.1, hon.2.2.2.2.2.1, hon.2.1, (hA hc).1⟩⟩
 
-theorem c09_disconnected_is_inert (d0 : Device) (started : Bool) (flags : Nat) (calls : List Call) (c : Call)
-    (hd : WF d0) (hc : c ≠ .connect) (hdis : (run (World.fresh d0 started flags) calls).1.connected = false) :
-    let w := (run (World.fresh d0 started flags) calls).1
+theorem c09_disconnected_is_inert_any (d0 : Device) (started : Bool) (flags : Nat) (desc : Desc)
+    (hist : List (Call × Ans)) (c : Call) (a : Ans) (hd : WF d0) (hc : c ≠ .connect)
+    (hdis : (runA (World.fresh d0 started flags desc) hist).1.connected = false) :
+    let w := (runA (World.fresh d0 started flags desc) hist).1
+    let w' := (step w c a).1
+    w'.log = w.log ∧ w'.dev = w.dev ∧ w'.devStarted = w.devStarted ∧ w'.time = w.time ∧
+    w'.recvThr = false ∧ w'.streamThr = false ∧ w'.intf = false ∧ w'.connected = false ∧ w'.reported = none := by
+  intro w w'
+  rcases (reachA d0 started flags desc hd hist).mode with hoff | hon
+  · obtain ⟨h1, h2, h3, h4, h5, -⟩ := step_off w c a hc hoff
+    have f := h1.facts
+    exact ⟨h2, h3, h4, h5, f.1, f.2.1, f.2.2.1, h1.1, f.2.2.2.2.2.2⟩
+  · exact absurd (hon.1.symm.trans hdis) (by decide)
+
+theorem c09_disconnected_is_inert (d0 : Device) (started : Bool) (flags : Nat) (desc : Desc) (calls : List Call)
+    (c : Call) (hd : WF d0) (hc : c ≠ .connect)
+    (hdis : (run (World.fresh d0 started flags desc) calls).1.connected = false) :
+    let w := (run (World.fresh d0 started flags desc) calls).1
     let w' := (step w c).1
     w'.log = w.log ∧ w'.dev = w.dev ∧ w'.devStarted = w.devStarted ∧ w'.time = w.time ∧
     w'.recvThr = false ∧ w'.streamThr = false ∧ w'.intf = false ∧ w'.connected = false := by
   intro w w'
-  rcases (reach d0 started flags hd calls).1.mode with hoff | hon
-  · obtain ⟨h1, h2, h3, h4, h5, -⟩ := step_off w c hc hoff
-    exact ⟨h2, h3, h4, h5, h1.2.1, h1.2.2.1, h1.2.2.2.1, h1.1⟩
+  rcases (reach d0 started flags desc hd calls).1.mode with hoff | hon
+  · obtain ⟨h1, h2, h3, h4, h5, -⟩ := step_off w c {} hc hoff
+    have f := h1.facts
+    exact ⟨h2, h3, h4, h5, f.1, f.2.1, f.2.2.1, h1.1⟩
   · exact absurd (hon.1.symm.trans hdis) (by decide)
 
-theorem c09_reconnect_same_description (d0 : Device) (started : Bool) (flags : Nat) (calls : List Call)
-    (hd : WF d0) :
-    let w := (run (World.fresh d0 started flags) (calls ++ [.connect])).1
-    w.dev.en.length = d0.en.length ∧ w.flags = flags ∧
-    ∃ c, w.cli = some c ∧ c.n = d0.en.length ∧ c.enNow = w.dev.en ∧ c.copyEn = w.dev.en ∧
-      c.divSupported = Info.divSupported flags ∧ c.ackSupported = Info.ackSupported flags := by
+theorem c09_reconnect_same_description_any (d0 : Device) (started : Bool) (flags : Nat) (desc : Desc)
+    (hist : List (Call × Ans)) (a : Ans) (hd : WF d0) :
+    let w := (runA (World.fresh d0 started flags desc) (hist ++ [(.connect, a)])).1
+    w.connected = true ∧ w.reported = some (rep d0.en.length flags desc) ∧ w.dev.en.length = d0.en.length ∧
+    w.flags = flags ∧ w.desc = desc := by
   intro w
-  have h := (reach d0 started flags hd calls).1
-  have h' : LInv d0.en.length flags w := (reach d0 started flags hd (calls ++ [.connect])).1
-  have hon : On flags w := by
-    show On flags (run _ (calls ++ [.connect])).1
+  have h := reachA d0 started flags desc hd hist
+  have h' : GInv d0.en.length flags desc w := reachA d0 started flags desc hd (hist ++ [(.connect, a)])
+  have hon : GOn flags (rep d0.en.length flags desc) w := by
+    show GOn flags _ (runA _ (hist ++ [(.connect, a)])).1
+    rw [runA_snoc]
+    rcases h.mode with hoff | hon
+    · exact (off_connect h hoff a).2.1
+    · exact (g_step h hon .connect a (fun e => nomatch e)).2
+  exact ⟨hon.1, hon.2.2.2.2.2.2.1, h'.base.len, h'.base.fl, h'.base.ds⟩
+
+/-- what a switched-on handler in agreement with the device reports about the configuration -/
+theorem on_description {n flags : Nat} {desc : Desc} {w : World} (h : GInv n flags desc w) (hA : AOn flags w) :
+    ∃ c, w.cli = some c ∧ c.n = n ∧ c.enNow = w.dev.en ∧ c.copyEn = w.dev.en ∧
+      c.divSupported = Info.divSupported flags ∧ c.ackSupported = Info.ackSupported flags := by
+  obtain ⟨c, hc, hS, ha⟩ := hA.2
+  have he := hS.dEn hS.sEn
+  exact ⟨c, hc, hS.inv.lDevEn.symm.trans h.base.len, he.symm, hS.inv.cpEn.trans he.symm, hS.divS, ha⟩
+
+theorem c09_reconnect_same_description (d0 : Device) (started : Bool) (flags : Nat) (desc : Desc) (calls : List Call)
+    (hd : WF d0) :
+    let w := (run (World.fresh d0 started flags desc) (calls ++ [.connect])).1
+    w.dev.en.length = d0.en.length ∧ w.flags = flags ∧
+    (∃ c, w.cli = some c ∧ c.n = d0.en.length ∧ c.enNow = w.dev.en ∧ c.copyEn = w.dev.en ∧
+      c.divSupported = Info.divSupported flags ∧ c.ackSupported = Info.ackSupported flags) ∧
+    w.reported = some (rep d0.en.length flags desc) := by
+  intro w
+  have h := (reach d0 started flags desc hd calls).1
+  obtain ⟨h', hA', -⟩ := reach d0 started flags desc hd (calls ++ [.connect])
+  have hon : GOn flags (rep d0.en.length flags desc) w := by
+    show GOn flags _ (run _ (calls ++ [.connect])).1
     rw [run_snoc]
     rcases h.mode with hoff | hon
-    · exact (off_connect h hoff).2.1
-    · exact (on_step h hon .connect (fun e => nomatch e)).2
-  exact ⟨h'.dev.2, h'.fl, on_description h' hon⟩
+    · exact (off_connect h hoff {}).2.1
+    · exact (g_step h hon .connect {} (fun e => nomatch e)).2
+  exact ⟨h'.base.len, h'.base.fl, on_description h' (hA' hon.1), hon.2.2.2.2.2.2.1⟩
 
-theorem c09_after_disconnect (d0 : Device) (started : Bool) (flags : Nat) (calls : List Call) (hd : WF d0) :
-    let w := (run (World.fresh d0 started flags) (calls ++ [.disconnect])).1
-    w.connected = false ∧ w.hasDev = false ∧ w.recvThr = false ∧ w.streamThr = false ∧ w.intf = false ∧
-    (Call.connect ∈ calls → w.devStarted = false ∧ ∀ b ∈ w.dev.en, b = false) := by
+theorem c09_after_disconnect_any (d0 : Device) (started : Bool) (flags : Nat) (desc : Desc)
+    (hist : List (Call × Ans)) (a : Ans) (hd : WF d0) :
+    let w := (runA (World.fresh d0 started flags desc) (hist ++ [(.disconnect, a)])).1
+    w.connected = false ∧ w.hasDev = false ∧ w.reported = none ∧ w.recvThr = false ∧ w.streamThr = false ∧
+    w.intf = false ∧ w.streamStarted = false ∧ w.commStarted = false := by
   intro w
-  have h := (reach d0 started flags hd calls).1
-  obtain ⟨-, hH⟩ := reach d0 started flags hd (calls ++ [.disconnect])
+  have h := reachA d0 started flags desc hd hist
+  have hoff : Off w := by
+    show Off (runA _ (hist ++ [(.disconnect, a)])).1
+    rw [runA_snoc]
+    rcases h.mode with hoff | hon
+    · rw [step_disconnect_idem _ a hoff.1]; exact hoff
+    · exact (g_disconnect h hon a).2.1
+  have f := hoff.facts
+  exact ⟨hoff.1, f.2.2.2.1, f.2.2.2.2.2.2, f.1, f.2.1, f.2.2.1, f.2.2.2.2.2.1, f.2.2.2.2.1⟩
+
+theorem c09_after_disconnect (d0 : Device) (started : Bool) (flags : Nat) (desc : Desc) (calls : List Call)
+    (hd : WF d0) :
+    let w := (run (World.fresh d0 started flags desc) (calls ++ [.disconnect])).1
+    w.connected = false ∧ w.hasDev = false ∧ w.recvThr = false ∧ w.streamThr = false ∧ w.intf = false ∧
+    (Call.connect ∈ calls → w.devStarted = false ∧ ∀ b ∈ w.dev.en, b = false) ∧ w.reported = none := by
+  intro w
+  have h := (reach d0 started flags desc hd calls).1
+  obtain ⟨-, -, hH⟩ := reach d0 started flags desc hd (calls ++ [.disconnect])
   have hoff : Off w := by
     show Off (run _ (calls ++ [.disconnect])).1
     rw [run_snoc]
     rcases h.mode with hoff | hon
-    · rw [step_disconnect_idem _ hoff.1]; exact hoff
-    · exact (on_disconnect h hon).2.1
-  exact ⟨hoff.1, hoff.2.2.2.2.1, hoff.2.1, hoff.2.2.1, hoff.2.2.2.1,
-    fun hm => hH (List.mem_append_left _ hm) hoff.1⟩
+    · rw [step_disconnect_idem _ {} hoff.1]; exact hoff
+    · exact (g_disconnect h hon {}).2.1
+  have f := hoff.facts
+  exact ⟨hoff.1, f.2.2.2.1, f.1, f.2.1, f.2.2.1, fun hm => hH (List.mem_append_left _ hm) hoff.1, f.2.2.2.2.2.2⟩
 
-theorem c09_connect_stops_stream (d0 : Device) (flags : Nat) (hd : WF d0) :
-    (run (World.fresh d0 true flags) [.connect]).1.devStarted = false :=
-  (off_connect (fresh_linv d0 true flags hd) ⟨rfl, rfl, rfl, rfl, rfl, rfl, rfl⟩).2.2
+theorem c09_connect_stops_stream (d0 : Device) (flags : Nat) (desc : Desc) (hd : WF d0) :
+    (run (World.fresh d0 true flags desc) [.connect]).1.devStarted = false :=
+  (off_connect (fresh_ginv d0 true flags desc hd) ⟨rfl, rfl, rfl, rfl, rfl, rfl, rfl, rfl⟩ {}).2.2.1
+
+/-! #### the bare low-level handler -/
+
+theorem c09_comm_state_machine (d0 : Device) (started : Bool) (flags : Nat) (desc : Desc)
+    (hist : List (CommCall × Ans)) (hd : WF d0) :
+    let w := (commRun (World.fresh d0 started flags desc) hist).1
+    (w.commStarted = false → w.recvThr = false ∧ w.intf = false ∧ w.hasDev = false ∧ w.reported = none) ∧
+    (w.commStarted = true → w.recvThr = true ∧ w.intf = true ∧ w.hasDev = true ∧
+        w.reported = some (rep d0.en.length flags desc)) ∧
+    w.streamThr = false := by
+  intro w
+  have h := reachC d0 started flags desc hd hist
+  rcases h.mode with hoff | hon
+  · exact ⟨fun _ => ⟨hoff.1, hoff.2.1, hoff.2.2.1, hoff.2.2.2.2⟩,
+      fun hc => absurd (hoff.2.2.2.1.symm.trans hc) (by decide), h.hi.2.1⟩
+  · exact ⟨fun hc => absurd (hon.2.2.2.1.symm.trans hc) (by decide),
+      fun _ => ⟨hon.1, hon.2.1, hon.2.2.1, hon.2.2.2.2.1⟩, h.hi.2.1⟩
+
+theorem c09_comm_reconnect_same_description (d0 : Device) (started : Bool) (flags : Nat) (desc : Desc)
+    (hist : List (CommCall × Ans)) (a : Ans) (hd : WF d0) :
+    let w := (commRun (World.fresh d0 started flags desc) (hist ++ [(.connect, a)])).1
+    w.commStarted = true ∧ w.reported = some (rep d0.en.length flags desc) := by
+  intro w
+  have h := reachC d0 started flags desc hd hist
+  have hon : COn flags (rep d0.en.length flags desc) w := by
+    show COn flags _ (commRun _ (hist ++ [(.connect, a)])).1
+    rw [commRun_snoc]
+    exact (c_connect h).2
+  exact ⟨hon.2.2.2.1, hon.2.2.2.2.1⟩
+
+theorem c09_comm_after_disconnect (d0 : Device) (started : Bool) (flags : Nat) (desc : Desc)
+    (hist : List (CommCall × Ans)) (a : Ans) (hd : WF d0) :
+    let w := (commRun (World.fresh d0 started flags desc) (hist ++ [(.disconnect, a)])).1
+    w.commStarted = false ∧ w.hasDev = false ∧ w.reported = none ∧ w.recvThr = false ∧ w.intf = false ∧
+    w.streamThr = false := by
+  intro w
+  have h := reachC d0 started flags desc hd hist
+  have h' : CInv d0.en.length flags desc w := reachC d0 started flags desc hd (hist ++ [(.disconnect, a)])
+  have hoff : COff w := by
+    show COff (commRun _ (hist ++ [(.disconnect, a)])).1
+    rw [commRun_snoc]
+    exact (c_disconnect h).2
+  exact ⟨hoff.2.2.2.1, hoff.2.2.1, hoff.2.2.2.2, hoff.1, hoff.2.1, h'.hi.2.1⟩
+
+/-! ### run-level statements (C11): the client's view over whole sessions, any answers -/
+
+/-- what `CliInv` says about the reported state on a device with ACK support -/
+theorem CliInv.view {flags : Nat} {w : World} (h : CliInv flags w) (ha : Info.ackSupported flags = true) :
+    ∃ c, w.cli = some c ∧ c.copyEn = c.enNow ∧ c.copyDiv = c.divNow ∧
+      (c.enResync = false → w.dev.en = c.enNow) ∧ (c.divResync = false → w.dev.div = c.divNow) := by
+  obtain ⟨c, hc, hI, -, -, hD⟩ := h
+  exact ⟨c, hc, hI.cpEn, hI.cpDiv, (hD ha).1, (hD ha).2⟩
+
+/-- an acknowledged write on a started handler brings device and client to the requested state -/
+theorem CliInv.converges {flags : Nat} {w : World} (hh : w.hasDev = true) (h : CliInv flags w)
+    (ha : Info.ackSupported flags = true) :
+    (doWrite w).2 = .ok ∧
+    ∃ c, (doWrite w).1.cli = some c ∧ (doWrite w).1.dev.en = c.enNew ∧ c.enNow = c.enNew ∧ c.copyEn = c.enNew ∧
+      (Info.divSupported flags = true →
+        (doWrite w).1.dev.div = c.divNew ∧ c.divNow = c.divNew ∧ c.copyDiv = c.divNew) := by
+  obtain ⟨c, hc, hI, hdv, -, hD⟩ := h
+  have hw := write_ack_result hI (hD ha).1 (hD ha).2
+  have hne := channelsWrite_noerr hI .ack .ack
+  rw [doWrite_some w {} c hh hc]
+  refine ⟨?_, _, rfl, hw.1, hw.2.1, hw.2.2.1, fun e => hw.2.2.2.1 (hdv.trans e)⟩
+  show (match (channelsWrite c w.dev Outcome.ack Outcome.ack).2.2.err with | some e => Res.raised e | none => Res.ok) = _
+  rw [hne]
+
+theorem c11_life_view (d0 : Device) (started : Bool) (flags : Nat) (desc : Desc) (hist : List (Call × Ans))
+    (hd : WF d0) (ha : Info.ackSupported flags = true)
+    (hcon : (runA (World.fresh d0 started flags desc) hist).1.connected = true) :
+    let w := (runA (World.fresh d0 started flags desc) hist).1
+    ∃ c, w.cli = some c ∧ c.copyEn = c.enNow ∧ c.copyDiv = c.divNow ∧
+      (c.enResync = false → w.dev.en = c.enNow) ∧ (c.divResync = false → w.dev.div = c.divNow) := by
+  intro w
+  rcases (reachA d0 started flags desc hd hist).mode with hoff | hon
+  · exact absurd (hoff.1.symm.trans hcon) (by decide)
+  · exact hon.2.2.2.2.2.2.2.view ha
+
+theorem c11_life_converges (d0 : Device) (started : Bool) (flags : Nat) (desc : Desc) (hist : List (Call × Ans))
+    (hd : WF d0) (ha : Info.ackSupported flags = true)
+    (hcon : (runA (World.fresh d0 started flags desc) hist).1.connected = true) :
+    let r := step (runA (World.fresh d0 started flags desc) hist).1 .channelsWrite
+    r.2 = .ok ∧
+    ∃ c, r.1.cli = some c ∧ r.1.dev.en = c.enNew ∧ c.enNow = c.enNew ∧ c.copyEn = c.enNew ∧
+      (Info.divSupported flags = true → r.1.dev.div = c.divNew ∧ c.divNow = c.divNew ∧ c.copyDiv = c.divNew) := by
+  intro r
+  rcases (reachA d0 started flags desc hd hist).mode with hoff | hon
+  · exact absurd (hoff.1.symm.trans hcon) (by decide)
+  · exact CliInv.converges hon.2.2.2.2.1 hon.2.2.2.2.2.2.2 ha
+
+theorem c11_comm_view (d0 : Device) (started : Bool) (flags : Nat) (desc : Desc) (hist : List (CommCall × Ans))
+    (hd : WF d0) (ha : Info.ackSupported flags = true)
+    (hcon : (commRun (World.fresh d0 started flags desc) hist).1.commStarted = true) :
+    let w := (commRun (World.fresh d0 started flags desc) hist).1
+    ∃ c, w.cli = some c ∧ c.copyEn = c.enNow ∧ c.copyDiv = c.divNow ∧
+      (c.enResync = false → w.dev.en = c.enNow) ∧ (c.divResync = false → w.dev.div = c.divNow) := by
+  intro w
+  rcases (reachC d0 started flags desc hd hist).mode with hoff | hon
+  · exact absurd (hoff.2.2.2.1.symm.trans hcon) (by decide)
+  · exact hon.2.2.2.2.2.view ha
+
+theorem c11_comm_converges (d0 : Device) (started : Bool) (flags : Nat) (desc : Desc) (hist : List (CommCall × Ans))
+    (hd : WF d0) (ha : Info.ackSupported flags = true)
+    (hcon : (commRun (World.fresh d0 started flags desc) hist).1.commStarted = true) :
+    let r := commStep (commRun (World.fresh d0 started flags desc) hist).1 .channelsWrite
+    r.2 = .ok ∧
+    ∃ c, r.1.cli = some c ∧ r.1.dev.en = c.enNew ∧ c.enNow = c.enNew ∧ c.copyEn = c.enNew ∧
+      (Info.divSupported flags = true → r.1.dev.div = c.divNew ∧ c.divNow = c.divNew ∧ c.copyDiv = c.divNew) := by
+  intro r
+  rcases (reachC d0 started flags desc hd hist).mode with hoff | hon
+  · exact absurd (hoff.2.2.2.1.symm.trans hcon) (by decide)
+  · exact CliInv.converges hon.2.2.1 hon.2.2.2.2.2 ha
+
+/-! ### start / stop requests (C11) -/
+
+/-- the acknowledgement a start / stop request returns, and what the device did with the request -/
+theorem commStartReq_spec (w : World) (s : Bool) (o : Outcome) :
+    (commStartReq w s o).1.devStarted = (if applies o then s else w.devStarted) ∧
+    (w.hasDev = false ∨ Info.ackSupported w.flags = false → (commStartReq w s o).2 = (true, 0)) ∧
+    (w.hasDev = true → Info.ackSupported w.flags = true →
+      (o = .ack → (commStartReq w s o).2 = (true, 0)) ∧
+      (∀ code, o = .nack code → code ≠ 0 → (commStartReq w s o).2 = (false, code)) ∧
+      (o = .lost ∨ o = .appliedAckLost → (commStartReq w s o).2 = (false, -1))) := by
+  refine ⟨rfl, ?_, ?_⟩
+  · intro h
+    have e : (!w.hasDev || !Info.ackSupported w.flags) = true := by
+      rcases h with h | h <;> rw [h] <;> simp
+    show ((startAck w o _).1, (startAck w o _).2.1) = _
+    unfold startAck
+    rw [if_pos e]
+  · intro h1 h2
+    have e : ¬ (!w.hasDev || !Info.ackSupported w.flags) = true := by rw [h1, h2]; decide
+    refine ⟨?_, ?_, ?_⟩
+    · intro ho; subst ho
+      show ((startAck w _ _).1, (startAck w _ _).2.1) = _
+      unfold startAck; rw [if_neg e]
+    · intro code ho hne; subst ho
+      show ((startAck w _ _).1, (startAck w _ _).2.1) = _
+      unfold startAck; rw [if_neg e]; dsimp only; rw [if_neg hne]
+    · intro ho
+      show ((startAck w _ _).1, (startAck w _ _).2.1) = _
+      unfold startAck; rw [if_neg e]
+      rcases ho with ho | ho <;> subst ho <;> rfl
 
 end Nxs.Lifecycle
